@@ -1,7 +1,12 @@
 // Driver for the geodesic problems (C01 direct, C02 inverse, C03 m12/M12/M21/S12).
-//   replay          : executes lattice vectors chosen by TLC on the unit-degree sphere, all solver configurations
-//   record S N SYM  : seeded random law records on the ellipsoid family; SYM = file of symmetry descriptors
-//                     emitted by TLC from GeodSym.tla (the driver is a generic interpreter of them)
+//   replay OVL            : executes lattice vectors chosen by TLC (stdin) on spheres of radius rk * 180/pi (rk = 1, 2), all
+//                           solver kinds and interfaces; `ell` vectors walk the ellipsoid lattice n = j/200 of the exact solver
+//   record S N SYM K OVL  : seeded random law records; K = dl | il | al (base ellipsoid family |f| <= 0.02) or
+//                           dx | ix | ax (extended family: series table |f| = 0.05, 0.1; exact solver b/a = 2^k; extra regimes)
+//                           SYM = symmetry descriptors emitted by TLC from GeodSym.tla, OVL = table of public overloads and
+//                           line-constructor forms emitted by TLC from GeodOverloads.tla (the driver interprets both)
+// The driver only executes the library and logs observations / residuals of fixed textbook formulas; every tolerance,
+// applicability guard and decision is in spec/Trace_Geod.tla.
 #include "trace.hpp"
 #include <GeographicLib/Geodesic.hpp>
 #include <GeographicLib/GeodesicLine.hpp>
@@ -11,6 +16,7 @@
 #include <GeographicLib/Rhumb.hpp>
 #include <GeographicLib/PolygonArea.hpp>
 #include <GeographicLib/Math.hpp>
+#include <algorithm>
 #include <fstream>
 
 using namespace GeographicLib;
@@ -27,6 +33,19 @@ static void qr(vector<long long>& out, double v) {
   if (fabsl(q) > 2.0e9L) { out.push_back(2000000000LL); out.push_back(0); return; }
   out.push_back((long long) q); out.push_back((long long) nearbyintl((x - q) * 1.0e6L));
 }
+
+// distance of two doubles in units in the last place (0 = same bit pattern; +0 / -0 count as 1), clipped
+static long long ulpd(double a, double b) {
+  if (vt::bits(a) == vt::bits(b)) return 0;
+  if (std::isnan(a) || std::isnan(b)) return 2000000001LL;
+  if (std::isinf(a) || std::isinf(b)) return 2000000000LL;
+  auto ord = [](double v) { uint64_t u = vt::bits(v); long long m = (long long)(u & 0x7fffffffffffffffULL); return (u >> 63) ? -m : m; };
+  long long ia = ord(a), ib = ord(b);
+  if ((ia < 0) != (ib < 0) && (fabs(a) > 1e-300 || fabs(b) > 1e-300)) return 2000000000LL;
+  long long d = ia > ib ? ia - ib : ib - ia; if (d == 0) d = 1;
+  return d > 2000000000LL ? 2000000000LL : d;
+}
+static const double SENT = -12345.678;        // outputs are preset to this value: an output that is not written keeps it
 
 // ---- a uniform view of the three solver configurations ---------------------------------------
 struct Sol {
@@ -49,62 +68,122 @@ struct Sol {
     if (kind == 1) return e.GenInverse(lat1, lon1, lat2, lon2, GeodesicExact::ALL, s12, azi1, azi2, m12, M12, M21, S12);
     return g.GenInverse(lat1, lon1, lat2, lon2, Geodesic::ALL, s12, azi1, azi2, m12, M12, M21, S12);
   }
-  // InverseLine: Arc(), Distance(), azimuth at the start and the end point it defines
-  void InvLine(double lat1, double lon1, double lat2, double lon2, double& a13, double& s13, double& azi1, double& la, double& lo) const {
-    if (kind == 1) { GeodesicLineExact l = e.InverseLine(lat1, lon1, lat2, lon2); a13 = l.Arc(); s13 = l.Distance(); azi1 = l.Azimuth(); l.Position(s13, la, lo); }
-    else { GeodesicLine l = g.InverseLine(lat1, lon1, lat2, lon2); a13 = l.Arc(); s13 = l.Distance(); azi1 = l.Azimuth(); l.Position(s13, la, lo); }
+  // InverseLine: Arc(), Distance(), azimuth at the start, and the end point it defines reached by distance and by arc
+  void InvLine(double lat1, double lon1, double lat2, double lon2, double& a13, double& s13, double& azi1, double& la, double& lo, double& laa, double& loa) const {
+    if (kind == 1) { GeodesicLineExact l = e.InverseLine(lat1, lon1, lat2, lon2); a13 = l.Arc(); s13 = l.Distance(); azi1 = l.Azimuth(); l.Position(s13, la, lo); l.ArcPosition(a13, laa, loa); }
+    else { GeodesicLine l = g.InverseLine(lat1, lon1, lat2, lon2); a13 = l.Arc(); s13 = l.Distance(); azi1 = l.Azimuth(); l.Position(s13, la, lo); l.ArcPosition(a13, laa, loa); }
   }
   double Area() const { return kind == 1 ? e.EllipsoidArea() : g.EllipsoidArea(); }
 };
 
-// ------------------------------------------------------------------ lattice replay
-static void replay() {
-  Sol S[3] = {Sol(0, RA, 0), Sol(1, RA, 0), Sol(2, RA, 0)};
-  const LD U = PIL / 180.0L;          // m^2 -> U  (U = R^2 pi/180 = 180/pi m^2)
-  string line;
-  while (getline(cin, line)) {
-    auto t = vt::split(line); if (t.empty()) continue;
-    if (t[0] == "dir") {   // dir inc node sig1 a12 lat1 lon1 azi1
-      long long inc = atoll(t[1].c_str()), node = atoll(t[2].c_str()), s1 = atoll(t[3].c_str()), a = atoll(t[4].c_str());
-      double lat1 = atof(t[5].c_str()), lon1 = atof(t[6].c_str()), azi1 = atof(t[7].c_str());
-      for (int k = 0; k < 3; ++k) for (int itf = 0; itf < 3; ++itf) {
-        double lat2, lon2, azi2, s12, m12, M12, M21, S12, lat2u, lon2u, t2;
-        double a12r;
-        if (itf == 0) { a12r = S[k].GenDirect(lat1, lon1, azi1, true, double(a), false, lat2, lon2, azi2, s12, m12, M12, M21, S12);
-                        S[k].GenDirect(lat1, lon1, azi1, true, double(a), true, lat2u, lon2u, t2, t2, t2, t2, t2, t2); }
-        else if (itf == 1) { a12r = S[k].GenDirect(lat1, lon1, azi1, false, double(a), false, lat2, lon2, azi2, s12, m12, M12, M21, S12);
-                             S[k].GenDirect(lat1, lon1, azi1, false, double(a), true, lat2u, lon2u, t2, t2, t2, t2, t2, t2); }
-        else { a12r = S[k].LinePos(lat1, lon1, azi1, true, double(a), false, lat2, lon2, azi2, s12, m12, M12, M21, S12);
-               S[k].LinePos(lat1, lon1, azi1, true, double(a), true, lat2u, lon2u, t2, t2, t2, t2, t2, t2); }
-        vector<long long> q;
-        qr(q, lat2); qr(q, lon2); qr(q, lon2u - lon1); qr(q, azi2); qr(q, s12); qr(q, a12r);
-        qr(q, double((LD)m12 * 2 / RA)); qr(q, 2 * M12); qr(q, 2 * M21); qr(q, double((LD)S12 * U));
-        Rec r; r.str("e", "dir").i("inc", inc).i("node", node).i("s1", s1).i("a", a).i("lon1", (long long) lon1).i("cfg", 3 * k + itf).li("q", q);
-        r.b("rng", fabs(lon2) <= 180 && fabs(azi2) <= 180 && fabs(lat2) <= 90 && vt::bits(lat2) == vt::bits(lat2u)); r.emit();
-      }
-    } else if (t[0] == "inv" || t[0] == "pinv") {   // inv inc node s1 s2 lat1 lon1 lat2 lon2 | pinv pole L lat lon first lat1 lon1 lat2 lon2
-      size_t o = t[0] == "inv" ? 5 : 6;
-      double lat1 = atof(t[o].c_str()), lon1 = atof(t[o + 1].c_str()), lat2 = atof(t[o + 2].c_str()), lon2 = atof(t[o + 3].c_str());
-      for (int k = 0; k < 3; ++k) for (int itf = 0; itf < 2; ++itf) {
-        double s12 = 0, azi1 = 0, azi2 = 0, m12 = 0, M12 = 0, M21 = 0, S12 = 0, a12 = 0; bool hit = true;
-        if (itf == 0) a12 = S[k].GenInverse(lat1, lon1, lat2, lon2, s12, azi1, azi2, m12, M12, M21, S12);
-        else { double la, lo; S[k].InvLine(lat1, lon1, lat2, lon2, a12, s12, azi1, la, lo);
-          // the end point of the line is point 2 (3-D distance on the unit-degree sphere, in 1e-12 m)
-          LD c1 = cosl(la * PIL / 180), c2 = cosl(lat2 * PIL / 180);
-          LD dx = c1 * cosl(lo * PIL / 180) - c2 * cosl(lon2 * PIL / 180), dy = c1 * sinl(lo * PIL / 180) - c2 * sinl(lon2 * PIL / 180), dz = sinl(la * PIL / 180) - sinl(lat2 * PIL / 180);
-          hit = sqrtl(dx * dx + dy * dy + dz * dz) * RA < 1e-10L; }
-        vector<long long> q; qr(q, a12); qr(q, s12); qr(q, azi1); qr(q, azi2);
-        qr(q, double((LD)m12 * 2 / RA)); qr(q, 2 * M12); qr(q, 2 * M21); qr(q, double((LD)S12 * U));
-        Rec r; r.str("e", t[0]);
-        if (t[0] == "inv") r.i("inc", atoll(t[1].c_str())).i("node", atoll(t[2].c_str())).i("s1", atoll(t[3].c_str())).i("s2", atoll(t[4].c_str()));
-        else r.str("pole", t[1]).i("L", atoll(t[2].c_str())).i("lat", atoll(t[3].c_str())).i("lon", atoll(t[4].c_str())).b("first", t[5] == "1");
-        r.i("cfg", 2 * k + itf).b("full", itf == 0).li("q", q).b("hit", hit).b("rng", fabs(azi1) <= 180 && fabs(azi2) <= 180); r.emit();
-      }
-    }
+// ---- the table of public overloads and line-constructor forms (from GeodOverloads.tla) -----------------------------
+// "ovl fam arity outs": fam 1 Direct, 2 ArcDirect, 3 Inverse, 4 Position, 5 ArcPosition; outs = documented output mask as a
+// set of bits 1 LATITUDE, 2 LONGITUDE, 4 AZIMUTH, 8 DISTANCE, 32 REDUCEDLENGTH, 64 GEODESICSCALE, 128 AREA
+// "ctor form arc": a way to obtain a line whose third point is point 2 of the direct problem (arc = 1: given as arc length)
+struct Row { int fam, arity, outs; };
+struct Form { int form, arc; };
+static vector<Row> ROWS; static vector<Form> FORMS;
+static void load_ovl(const char* path) {
+  ifstream f(path); string tag; int a, b, c;
+  while (f >> tag) { if (tag == "ovl") { f >> a >> b >> c; ROWS.push_back({a, b, c}); } else if (tag == "ctor") { f >> a >> b; FORMS.push_back({a, b}); } else break; }
+  sort(ROWS.begin(), ROWS.end(), [](const Row& x, const Row& y) { return x.fam != y.fam ? x.fam < y.fam : x.arity < y.arity; });
+  sort(FORMS.begin(), FORMS.end(), [](const Form& x, const Form& y) { return x.form < y.form; });
+}
+template<class G> static unsigned mk(int outs) {
+  unsigned m = 0;
+  if (outs & 1) m |= G::LATITUDE; if (outs & 2) m |= G::LONGITUDE; if (outs & 4) m |= G::AZIMUTH; if (outs & 8) m |= G::DISTANCE;
+  if (outs & 32) m |= G::REDUCEDLENGTH; if (outs & 64) m |= G::GEODESICSCALE; if (outs & 128) m |= G::AREA;
+  return m;
+}
+// outputs in slots: direct families 0 lat2 1 lon2 2 azi2 3 s12 4 m12 5 M12 6 M21 7 S12; inverse 0 s12 1 azi1 2 azi2 3 m12 4 M12 5 M21 6 S12; 8 = returned a12
+struct Out { double v[9]; int sig; Out() : sig(0) { for (double& x : v) x = SENT; } };
+// calls the overload of family Direct / ArcDirect (on a solver) or Position / ArcPosition (on a line) with `arity` outputs;
+// sig = the slots that appear in the C++ signature (bit i = slot i, bit 8 = a returned value)
+template<class T> static bool call_dist(const T& o, bool line, double lat1, double lon1, double azi1, double s, int arity, Out& r) {
+  double* v = r.v;
+  auto D = [&](auto&... a) { if constexpr (std::is_same<T, Geodesic>::value || std::is_same<T, GeodesicExact>::value) v[8] = o.Direct(lat1, lon1, azi1, s, a...); else v[8] = o.Position(s, a...); };
+  (void) line;
+  switch (arity) {
+  case 2: D(v[0], v[1]); r.sig = 0x103; return true;
+  case 3: D(v[0], v[1], v[2]); r.sig = 0x107; return true;
+  case 4: D(v[0], v[1], v[2], v[4]); r.sig = 0x117; return true;
+  case 5: D(v[0], v[1], v[2], v[5], v[6]); r.sig = 0x167; return true;
+  case 6: D(v[0], v[1], v[2], v[4], v[5], v[6]); r.sig = 0x177; return true;
+  case 7: D(v[0], v[1], v[2], v[4], v[5], v[6], v[7]); r.sig = 0x1f7; return true;
+  }
+  return false;
+}
+template<class T> static bool call_arc(const T& o, bool line, double lat1, double lon1, double azi1, double s, int arity, Out& r) {
+  double* v = r.v;
+  auto D = [&](auto&... a) { if constexpr (std::is_same<T, Geodesic>::value || std::is_same<T, GeodesicExact>::value) o.ArcDirect(lat1, lon1, azi1, s, a...); else o.ArcPosition(s, a...); };
+  (void) line;
+  switch (arity) {
+  case 2: D(v[0], v[1]); r.sig = 0x003; return true;
+  case 3: D(v[0], v[1], v[2]); r.sig = 0x007; return true;
+  case 4: D(v[0], v[1], v[2], v[3]); r.sig = 0x00f; return true;
+  case 5: D(v[0], v[1], v[2], v[3], v[4]); r.sig = 0x01f; return true;
+  case 6: D(v[0], v[1], v[2], v[3], v[5], v[6]); r.sig = 0x06f; return true;
+  case 7: D(v[0], v[1], v[2], v[3], v[4], v[5], v[6]); r.sig = 0x07f; return true;
+  case 8: D(v[0], v[1], v[2], v[3], v[4], v[5], v[6], v[7]); r.sig = 0x0ff; return true;
+  }
+  return false;
+}
+template<class G> static bool call_inv(const G& o, double lat1, double lon1, double lat2, double lon2, int arity, Out& r) {
+  double* v = r.v;
+  switch (arity) {
+  case 1: v[8] = o.Inverse(lat1, lon1, lat2, lon2, v[0]); r.sig = 0x101; return true;
+  case 2: v[8] = o.Inverse(lat1, lon1, lat2, lon2, v[1], v[2]); r.sig = 0x106; return true;
+  case 3: v[8] = o.Inverse(lat1, lon1, lat2, lon2, v[0], v[1], v[2]); r.sig = 0x107; return true;
+  case 4: v[8] = o.Inverse(lat1, lon1, lat2, lon2, v[0], v[1], v[2], v[3]); r.sig = 0x10f; return true;
+  case 5: v[8] = o.Inverse(lat1, lon1, lat2, lon2, v[0], v[1], v[2], v[4], v[5]); r.sig = 0x137; return true;
+  case 6: v[8] = o.Inverse(lat1, lon1, lat2, lon2, v[0], v[1], v[2], v[3], v[4], v[5]); r.sig = 0x13f; return true;
+  case 7: v[8] = o.Inverse(lat1, lon1, lat2, lon2, v[0], v[1], v[2], v[3], v[4], v[5], v[6]); r.sig = 0x17f; return true;
+  }
+  return false;
+}
+static long long relq(double v, double ref, LD unit) { LD x = fabsl(((LD)v - ref) / unit) / 1e-15L; return std::isnan((double) x) ? 2000000001LL : x > 2e9L ? 2000000000LL : (long long) ceill(x); }
+// one entry of the overload-agreement law: [cls, fam, arity, sig, dpM, dmM, dpA, dmA]
+//   dpM / dmM: largest ulp distance of a position-type / (m12, M12, M21, S12)-type output from the general call with the
+//              documented mask of this overload;  dpA / dmA: the same against the general call with mask ALL, relative 1e-15
+//              (angles relative to 360 deg, lengths to a, areas to the ellipsoid area)
+static void ov_entry(string& out, int cls, const Row& w, const Out& o, const Out& refm, const Out& refa, bool inverse, double a, double area) {
+  long long dpM = 0, dmM = 0, dpA = 0, dmA = 0;
+  for (int i = 0; i < 9; ++i) if (o.sig & (1 << i)) {
+    bool pos = inverse ? (i <= 2 || i == 8) : (i <= 3 || i == 8);
+    LD unit = 360;
+    if (inverse) { if (i == 0 || i == 3) unit = a; else if (i == 4 || i == 5) unit = 1; else if (i == 6) unit = area; }
+    else { if (i == 3 || i == 4) unit = a; else if (i == 5 || i == 6) unit = 1; else if (i == 7) unit = area; }
+    long long u = ulpd(o.v[i], refm.v[i]), q = relq(o.v[i], refa.v[i], unit);
+    if (pos) { dpM = max(dpM, u); dpA = max(dpA, q); } else { dmM = max(dmM, u); dmA = max(dmA, q); }
+  }
+  if (!out.empty()) out += ",";
+  out += "[" + to_string(cls) + "," + to_string(w.fam) + "," + to_string(w.arity) + "," + to_string(o.sig) + "," + to_string(dpM) + "," + to_string(dmM) + "," + to_string(dpA) + "," + to_string(dmA) + "]";
+}
+template<class G, class L> static void ov_direct(string& out, int cls, const G& g, double lat1, double lon1, double azi1, bool arc, double sa, double a, double area) {
+  L line = g.Line(lat1, lon1, azi1);
+  Out all; all.v[8] = g.GenDirect(lat1, lon1, azi1, arc, sa, G::ALL, all.v[0], all.v[1], all.v[2], all.v[3], all.v[4], all.v[5], all.v[6], all.v[7]);
+  for (const Row& w : ROWS) {
+    if (w.fam == 3 || (arc != (w.fam == 2 || w.fam == 5))) continue;
+    bool ln = w.fam >= 4; Out o, rm; bool ok;
+    if (arc) ok = ln ? call_arc(line, true, lat1, lon1, azi1, sa, w.arity, o) : call_arc(g, false, lat1, lon1, azi1, sa, w.arity, o);
+    else ok = ln ? call_dist(line, true, lat1, lon1, azi1, sa, w.arity, o) : call_dist(g, false, lat1, lon1, azi1, sa, w.arity, o);
+    if (!ok) continue;
+    if (ln) rm.v[8] = line.GenPosition(arc, sa, mk<L>(w.outs), rm.v[0], rm.v[1], rm.v[2], rm.v[3], rm.v[4], rm.v[5], rm.v[6], rm.v[7]);
+    else rm.v[8] = g.GenDirect(lat1, lon1, azi1, arc, sa, mk<G>(w.outs), rm.v[0], rm.v[1], rm.v[2], rm.v[3], rm.v[4], rm.v[5], rm.v[6], rm.v[7]);
+    ov_entry(out, cls, w, o, rm, all, false, a, area);
+  }
+}
+template<class G> static void ov_inverse(string& out, int cls, const G& g, double lat1, double lon1, double lat2, double lon2, double a, double area) {
+  Out all; all.v[8] = g.GenInverse(lat1, lon1, lat2, lon2, G::ALL, all.v[0], all.v[1], all.v[2], all.v[3], all.v[4], all.v[5], all.v[6]);
+  for (const Row& w : ROWS) {
+    if (w.fam != 3) continue;
+    Out o, rm; if (!call_inv(g, lat1, lon1, lat2, lon2, w.arity, o)) continue;
+    rm.v[8] = g.GenInverse(lat1, lon1, lat2, lon2, mk<G>(w.outs), rm.v[0], rm.v[1], rm.v[2], rm.v[3], rm.v[4], rm.v[5], rm.v[6]);
+    ov_entry(out, cls, w, o, rm, all, true, a, area);
   }
 }
 
-// ------------------------------------------------------------------ law records
+// ------------------------------------------------------------------ closed forms evaluated by the driver (long double)
 struct V3 { LD x, y, z; };
 static V3 cart(double a, double f, double lat, double lon) {     // closed-form geodetic -> cartesian on the ellipsoid (h = 0)
   LD e2 = (LD)f * (2 - (LD)f), sl = sinl(lat * PIL / 180), cl = cosl(lat * PIL / 180);
@@ -122,9 +201,61 @@ static V3 tangent(double lat, double lon, double azi) {
 }
 static long long nmq(LD metres) { LD v = fabsl(metres) * 1e9L; return v > 2e9L ? 2000000000LL : (std::isnan((double) v) ? 2000000001LL : (long long) ceill(v)); }
 static long long uq(LD x, LD unit) { LD v = fabsl(x) / unit; return v > 2e9L ? 2000000000LL : (std::isnan((double) v) ? 2000000001LL : (long long) ceill(v)); }
+// complete elliptic integral of the second kind, parameter m in [0, 1) (arithmetic-geometric mean, Abramowitz & Stegun 17.6)
+static LD ellipE(LD m) {
+  LD a = 1, b = sqrtl(1 - m), c = sqrtl(m), s = c * c / 2, p = 1;
+  for (int n = 0; n < 40 && fabsl(c) > 1e-25L; ++n) { LD an = (a + b) / 2, bn = sqrtl(a * b); c = (a - b) / 2; a = an; b = bn; s += p * c * c; p *= 2; }
+  return PIL / (2 * a) * (1 - s);
+}
+// quarter of the meridian ellipse (semi-axes a and b = a (1 - f))
+static LD quarter_meridian(double a, double f) { LD b = (LD)a * (1 - (LD)f), hi = max((LD)a, b), lo = min((LD)a, b); return hi * ellipE(1 - (lo / hi) * (lo / hi)); }
+static const LD QM_WGS84 = 10001965.729312736L;
+// closed-form area of the ellipsoid 2 pi (a^2 + b^2 atanh(e)/e)
+static LD area_closed(double a, double f) {
+  LD b = (LD)a * (1 - (LD)f), e2 = (LD)f * (2 - (LD)f);
+  if (f == 0) return 4 * PIL * (LD)a * a;
+  if (f > 0) { LD e = sqrtl(e2); return 2 * PIL * ((LD)a * a + b * b * atanhl(e) / e); }
+  LD e = sqrtl(-e2); return 2 * PIL * ((LD)a * a + b * b * atanl(e) / e);
+}
+// area between the equator and the parallel of geodetic latitude phi, per radian of longitude:
+//   q(phi) = int_0^phi M N cos(phi) dphi = b^2/2 (sin(phi)/(1 - e2 sin^2(phi)) + atanh(e sin(phi))/e)
+static LD qarea(double a, double f, LD x) {
+  LD e2 = (LD)f * (2 - (LD)f), b = (LD)a * (1 - (LD)f);
+  if (f == 0) return (LD)a * a * x;
+  LD t = e2 > 0 ? atanhl(sqrtl(e2) * x) / sqrtl(e2) : atanl(sqrtl(-e2) * x) / sqrtl(-e2);
+  return b * b / 2 * (x / (1 - e2 * x * x) + t);
+}
+// sensitivity of S12 to a displacement of an end point along its parallel: dS12 = q(phi) dlambda, dlambda = dx / (N cos(phi)),
+// in m^2 per m (WGS84 mid-latitudes: a tan(phi) ~ 6.4e6)
+static LD kappa(double a, double f, double lat) {
+  LD e2 = (LD)f * (2 - (LD)f), sp = sinl(lat * PIL / 180), cp = cosl(lat * PIL / 180); if (fabs(lat) == 90) cp = 0;
+  LD n = (LD)a / sqrtl(1 - e2 * sp * sp);
+  return cp > 0 ? fabsl(qarea(a, f, sp)) / (n * cp) : 1e30L;
+}
+// kq: kappa in the units of the records (1e-4 m^2 of a WGS84-sized ellipsoid per nm of a WGS84-sized ellipsoid), rounded up
+static long long kq(LD kap, LD scale, LD asc) { LD v = kap * scale * 1e-5L / asc; return v > 2e9L ? 2000000000LL : (long long) ceill(v); }
+// definition of S12: the integral of q(phi) dlambda along the geodesic, dlambda/ds = sin(alpha) / (N cos(phi)); composite
+// 8-point Gauss-Legendre rule with P panels in the distance, positions and azimuths taken from the line object `pos`
+template<class F> static LD area_def(double a, double f, double s12, int P, F pos, LD& cmin, LD& kmax) {
+  static const LD X[4] = {0.1834346424956498049L, 0.5255324099163289858L, 0.7966664774136267396L, 0.9602898564975362317L};
+  static const LD W[4] = {0.3626837833783619830L, 0.3137066458778872873L, 0.2223810344533744706L, 0.1012285362903762592L};
+  LD e2 = (LD)f * (2 - (LD)f), sum = 0, h = (LD)s12 / P;
+  auto g = [&](LD s) { double la, az; pos(double(s), la, az); LD sp = sinl(la * PIL / 180), cp = cosl(la * PIL / 180); LD cb = cp / hypotl(cp, (1 - (LD)f) * sp); if (cb < cmin) cmin = cb; LD kp = kappa(a, f, la); if (kp > kmax) kmax = kp;
+    return qarea(a, f, sp) * sinl(az * PIL / 180) * sqrtl(1 - e2 * sp * sp) / ((LD)a * cp); };
+  for (int i = 0; i < P; ++i) { LD m = h * (i + 0.5L); for (int k = 0; k < 4; ++k) sum += W[k] * (g(m - X[k] * h / 2) + g(m + X[k] * h / 2)); }
+  return sum * h / 2;
+}
 
-static const double FS[] = {0, 1 / 298.257223563, -1 / 298.257223563, 1 / 150.0, -1 / 150.0, 0.01, -0.01, 0.02, -0.02};
+// ---- ellipsoid families (the index fi is interpreted by Trace_Geod.tla) --------------------------------------------------
+//   fi 0..8  : f = 0, +-1/298.257223563, +-1/150, +-0.01, +-0.02        series solver at full accuracy
+//   fi 9..12 : f = +-0.05, +-0.1                                         series solver by the published error table
+//   fi 13    : b/a = bp/bq (exact solver only: the table of GeodesicExact.hpp)
+static const double FS[] = {0, 1 / 298.257223563, -1 / 298.257223563, 1 / 150.0, -1 / 150.0, 0.01, -0.01, 0.02, -0.02, 0.05, -0.05, 0.1, -0.1};
 static const int NF = 9;
+struct Ell { int fi; double a, f; long long bp, bq; LD scale; };     // scale: size relative to WGS84 (quarter meridian for fi = 13)
+static Ell base_ell(int fi, double a) { return {fi, a, FS[fi], 0, 0, (LD)a / 6378137.0L}; }
+static Ell ratio_ell(long long bp, long long bq, double a) { double f = double(((LD)bq - bp) / bq); return {13, a, f, bp, bq, quarter_meridian(a, f) / QM_WGS84}; }
+static void ell_fields(Rec& r, const Ell& E) { r.i("fi", E.fi); if (E.fi == 13) r.li("bq", {E.bp, E.bq}); r.i("aq", vt::q1(E.a, 1.0L)); }
 
 struct Sym { int sw, ls, ms, as, ao, ss; };
 static vector<Sym> load_sym(const char* path) {
@@ -133,98 +264,395 @@ static vector<Sym> load_sym(const char* path) {
   return v;
 }
 
-static void direct_law(vt::Rng& g, long long id) {
-  int fi = int(g.range(0, NF - 1)); double f = FS[fi], a = g.coin() ? 6378137.0 : (g.coin() ? 6.4e6 : 1.0);
-  double lat1 = g.uni(-90, 90), lon1 = g.uni(-180, 180), azi1 = g.uni(-180, 180);
-  int w = int(g.range(0, 9));
-  if (w == 0) lat1 = g.coin() ? 90 : -90; if (w == 1) lat1 = 0; if (w == 2) azi1 = 90.0 * double(g.range(-2, 2)); if (w == 3) lon1 = g.uni(-720, 720);
-  bool arc = g.coin();
-  LD scale = a / 6378137.0L;
-  double sa = arc ? g.uni(-1, 1) * pow(10.0, g.uni(-6, 3.5)) : g.uni(-1, 1) * pow(10.0, g.uni(-3, 8.5)) * double(scale);
+void walk_record(long long j, long long lat1, long long azi1, long long a12, long long mode);
+// ------------------------------------------------------------------ lattice replay
+static void replay() {
+  string line;
+  // spheres of radius rk * 180/pi: one degree of arc is rk metres
+  vector<vector<Sol>> SS; for (int rk = 1; rk <= 2; ++rk) { vector<Sol> v; for (int k = 0; k < 3; ++k) v.emplace_back(k, rk * RA, 0.0); SS.push_back(v); }
+  const LD U = PIL / 180.0L;          // m^2 -> U  (U = (180/pi)^2 pi/180 = 180/pi m^2: area unit of the sphere with rk = 1)
+  while (getline(cin, line)) {
+    auto t = vt::split(line); if (t.empty()) continue;
+    if (t[0] == "dir") {   // dir inc node sig1 a12 rk li lat1 lon1 azi1
+      long long inc = atoll(t[1].c_str()), node = atoll(t[2].c_str()), s1 = atoll(t[3].c_str()), a = atoll(t[4].c_str()), rk = atoll(t[5].c_str()), li = atoll(t[6].c_str());
+      double lat1 = atof(t[7].c_str()), lon1 = atof(t[8].c_str()), azi1 = atof(t[9].c_str());
+      const vector<Sol>& S = SS[rk - 1];
+      // interfaces: 0 GenDirect by arc, 1 GenDirect by distance, and the line interface chosen by TLC for this vector:
+      //   2 Line + GenPosition by arc, 3 Line + GenPosition by distance, 4 DirectLine, 5 ArcDirectLine, 6 GenDirectLine (by arc
+      //   when a is even, else by distance), 7 Line + SetDistance / SetArc (same parity rule); for 4..7 the position is
+      //   evaluated at the line's own third point (Distance() / Arc())
+      const int itfs[3] = {0, 1, int(li)};
+      for (int k = 0; k < 3; ++k) for (int ii = 0; ii < 3; ++ii) {
+        int itf = itfs[ii];
+        double lat2 = SENT, lon2 = SENT, azi2 = SENT, s12 = SENT, m12 = SENT, M12 = SENT, M21 = SENT, S12 = SENT, lat2u = SENT, lon2u = SENT, t2;
+        double a12r = SENT, d13 = SENT, a13 = SENT; double sd = double(rk * a), ad = double(a);
+        if (itf <= 1) { bool arc = itf == 0; a12r = S[k].GenDirect(lat1, lon1, azi1, arc, arc ? ad : sd, false, lat2, lon2, azi2, s12, m12, M12, M21, S12);
+                        S[k].GenDirect(lat1, lon1, azi1, arc, arc ? ad : sd, true, lat2u, lon2u, t2, t2, t2, t2, t2, t2); }
+        else if (itf <= 3) { bool arc = itf == 2; a12r = S[k].LinePos(lat1, lon1, azi1, arc, arc ? ad : sd, false, lat2, lon2, azi2, s12, m12, M12, M21, S12);
+                             S[k].LinePos(lat1, lon1, azi1, arc, arc ? ad : sd, true, lat2u, lon2u, t2, t2, t2, t2, t2, t2); }
+        else {
+          bool arc = itf == 5 || (itf >= 6 && a % 2 == 0);
+          auto run = [&](auto& l, unsigned ALLM, unsigned UNR) {
+            d13 = l.Distance(); a13 = l.Arc();
+            a12r = l.GenPosition(arc, arc ? a13 : d13, ALLM, lat2, lon2, azi2, s12, m12, M12, M21, S12);
+            l.GenPosition(arc, arc ? a13 : d13, ALLM | UNR, lat2u, lon2u, t2, t2, t2, t2, t2, t2); };
+          if (S[k].kind == 1) { const GeodesicExact& E = S[k].e;
+            GeodesicLineExact l = itf == 4 ? E.DirectLine(lat1, lon1, azi1, sd) : itf == 5 ? E.ArcDirectLine(lat1, lon1, azi1, ad) : itf == 6 ? E.GenDirectLine(lat1, lon1, azi1, arc, arc ? ad : sd) : E.Line(lat1, lon1, azi1);
+            if (itf == 7) { if (arc) l.SetArc(ad); else l.SetDistance(sd); }
+            run(l, GeodesicExact::ALL, GeodesicExact::LONG_UNROLL); }
+          else { const Geodesic& G = S[k].g;
+            GeodesicLine l = itf == 4 ? G.DirectLine(lat1, lon1, azi1, sd) : itf == 5 ? G.ArcDirectLine(lat1, lon1, azi1, ad) : itf == 6 ? G.GenDirectLine(lat1, lon1, azi1, arc, arc ? ad : sd) : G.Line(lat1, lon1, azi1);
+            if (itf == 7) { if (arc) l.SetArc(ad); else l.SetDistance(sd); }
+            run(l, Geodesic::ALL, Geodesic::LONG_UNROLL); }
+        }
+        vector<long long> q;
+        qr(q, lat2); qr(q, lon2); qr(q, lon2u - lon1); qr(q, azi2); qr(q, s12); qr(q, a12r);
+        qr(q, double((LD)m12 * 2 / RA)); qr(q, 2 * M12); qr(q, 2 * M21); qr(q, double((LD)S12 * U));
+        if (itf >= 4) { qr(q, d13); qr(q, a13); }
+        Rec r; r.str("e", "dir").i("inc", inc).i("node", node).i("s1", s1).i("a", a).i("rk", rk).i("lon1", (long long) lon1).i("k", k).i("itf", itf).li("q", q);
+        r.b("rng", fabs(lon2) <= 180 && fabs(azi2) <= 180 && fabs(lat2) <= 90 && vt::bits(lat2) == vt::bits(lat2u)); r.emit();
+      }
+    } else if (t[0] == "inv" || t[0] == "pinv" || t[0] == "sp") {
+      // inv inc node s1 s2 rk lat1 lon1 lat2 lon2 | pinv pole L lat lon first rk lat1 lon1 lat2 lon2 | sp lat lon1 mirror dl rk lat1 lon1 lat2 lon2
+      size_t o = t[0] == "pinv" ? 7 : 6;
+      long long rk = atoll(t[o - 1].c_str());
+      double lat1 = atof(t[o].c_str()), lon1 = atof(t[o + 1].c_str()), lat2 = atof(t[o + 2].c_str()), lon2 = atof(t[o + 3].c_str());
+      const vector<Sol>& S = SS[rk - 1];
+      for (int k = 0; k < 3; ++k) for (int itf = 0; itf < 2; ++itf) {
+        double s12 = SENT, azi1 = SENT, azi2 = SENT, m12 = SENT, M12 = SENT, M21 = SENT, S12 = SENT, a12 = SENT; bool hit = true;
+        if (itf == 0) a12 = S[k].GenInverse(lat1, lon1, lat2, lon2, s12, azi1, azi2, m12, M12, M21, S12);
+        else { double la, lo, laa, loa; azi2 = m12 = M12 = M21 = S12 = 0;     // not outputs of this interface
+          S[k].InvLine(lat1, lon1, lat2, lon2, a12, s12, azi1, la, lo, laa, loa);
+          // the third point of the line is point 2, reached by Distance() and by Arc() (3-D distance on the unit sphere x RA)
+          auto miss = [&](double la_, double lo_) { LD c1 = cosl(la_ * PIL / 180), c2 = cosl(lat2 * PIL / 180);
+            LD dx = c1 * cosl(lo_ * PIL / 180) - c2 * cosl(lon2 * PIL / 180), dy = c1 * sinl(lo_ * PIL / 180) - c2 * sinl(lon2 * PIL / 180), dz = sinl(la_ * PIL / 180) - sinl(lat2 * PIL / 180);
+            return sqrtl(dx * dx + dy * dy + dz * dz) * RA; };
+          hit = miss(la, lo) < 1e-10L && miss(laa, loa) < 1e-10L; }
+        vector<long long> q; qr(q, a12); qr(q, s12); qr(q, azi1); qr(q, azi2);
+        qr(q, double((LD)m12 * 2 / RA)); qr(q, 2 * M12); qr(q, 2 * M21); qr(q, double((LD)S12 * U));
+        Rec r; r.str("e", t[0]);
+        if (t[0] == "inv") r.i("inc", atoll(t[1].c_str())).i("node", atoll(t[2].c_str())).i("s1", atoll(t[3].c_str())).i("s2", atoll(t[4].c_str()));
+        else if (t[0] == "pinv") r.str("pole", t[1]).i("L", atoll(t[2].c_str())).i("lat", atoll(t[3].c_str())).i("lon", atoll(t[4].c_str())).b("first", t[5] == "1");
+        else r.i("lat", atoll(t[1].c_str())).i("lon", atoll(t[2].c_str())).b("mirror", t[3] == "1").i("dl", atoll(t[4].c_str()));
+        r.i("rk", rk).i("cfg", 2 * k + itf).b("full", itf == 0).li("q", q).b("hit", hit).b("rng", fabs(azi1) <= 180 && fabs(azi2) <= 180); r.emit();
+      }
+    } else if (t[0] == "ell") {   // ell j lat1 azi1 a12 : third flattening n = j/200, integer start, azimuth and arc (degrees)
+      walk_record(atoll(t[1].c_str()), atoll(t[2].c_str()), atoll(t[3].c_str()), atoll(t[4].c_str()), t.size() > 5 ? atoll(t[5].c_str()) : 0);
+    }
+  }
+}
+
+// ------------------------------------------------------------------ law records: the direct problem
+// One direct problem on the ellipsoid E.  g: the main stream (only the chain length is drawn from it: the base records keep
+// the inputs they had before the record was extended); ovl: carry the overload and constructor-form blocks.
+static void direct_core(Rec& r, const Ell& E, double lat1, double lon1, double azi1, bool arc, double sa, int nchain, bool ovl, bool adef) {
+  double a = E.a, f = E.f; LD scale = E.scale;
   Sol S[3] = {Sol(0, a, f), Sol(1, a, f), Sol(2, a, f)};
-  double la[4], lo[4], az[4], s12[4], m12[4], M12[4], M21[4], S12[4], a12[4], lou[4];
-  for (int c = 0; c < 4; ++c) {
-    const Sol& s = S[c < 3 ? c : 0]; double t;
+  // configurations 0..2: GenDirect of the three solver kinds; 3..5: the line object of each kind
+  double la[6], lo[6], az[6], s12[6], m12[6], M12[6], M21[6], S12[6], a12[6], lou[6];
+  for (int c = 0; c < 6; ++c) {
+    const Sol& s = S[c % 3]; double t;
     if (c < 3) { a12[c] = s.GenDirect(lat1, lon1, azi1, arc, sa, false, la[c], lo[c], az[c], s12[c], m12[c], M12[c], M21[c], S12[c]);
                  double l2; s.GenDirect(lat1, lon1, azi1, arc, sa, true, t, l2, t, t, t, t, t, t); lou[c] = l2; }
     else { a12[c] = s.LinePos(lat1, lon1, azi1, arc, sa, false, la[c], lo[c], az[c], s12[c], m12[c], M12[c], M21[c], S12[c]);
            double l2; s.LinePos(lat1, lon1, azi1, arc, sa, true, t, l2, t, t, t, t, t, t); lou[c] = l2; }
   }
-  V3 p[4]; V3 tg[4]; for (int c = 0; c < 4; ++c) { p[c] = cart(a, f, la[c], lo[c]); tg[c] = tangent(la[c], lo[c], az[c]); }
-  LD area = S[0].Area();
-  Rec r; r.str("e", "dl").i("id", id).i("fi", fi).b("arc", arc).i("aq", vt::q1(a, 1.0L)).i("circ", vt::q1(fabs(arc ? sa : a12[0]) / 360, 1.0L));
+  V3 p[6]; V3 tg[6]; for (int c = 0; c < 6; ++c) { p[c] = cart(a, f, la[c], lo[c]); tg[c] = tangent(la[c], lo[c], az[c]); }
+  LD area = S[1].Area(), asc = area / 510065621724088.44L;      // size of the ellipsoid's area relative to WGS84
+  if (E.fi <= 8) asc = scale * scale;
+  if (getenv("VERIF_DBG")) { char b[200]; snprintf(b, 200, "\"%.17g %.17g %.17g %.17g a=%.17g f=%.17g\"", lat1, lon1, azi1, sa, a, f); r.raw("dbg", b); }
+  r.b("arc", arc).i("circ", vt::q1(fabs(arc ? sa : a12[E.fi == 13 ? 1 : 0]) / 360, 1.0L));
   // conditioning of the area under the geodesic: it depends on the end points through their longitudes/azimuths,
   // whose sensitivity to a position error grows like 1 / cos(lat)
   r.i("cmin", max(1LL, vt::q1(min(cosl(lat1 * PIL / 180), cosl(la[1] * PIL / 180)), 1e-6L)));
-  // L1 agreement: series vs exact, series vs exact=true, solver vs line  (end points in nm / scale, tangents in 1e-15)
+  r.i("kq", kq(max(kappa(a, f, lat1), kappa(a, f, la[1])), scale, asc));
+  // conditioning of m12 with respect to the end point: d m12 / d s2 = M21 (and M12 for the reversed segment), rounded up
+  r.i("mx", vt::q1(ceill(max((LD)1, max(fabsl((LD)M12[1]), fabsl((LD)M21[1])))), 1.0L));
+  // L1 agreement: series vs exact, exact=true vs exact, series vs its line  (end points in nm / scale, tangents in 1e-15)
   r.li("pos", {nmq(dist(p[0], p[1]) / scale), nmq(dist(p[2], p[1]) / scale), nmq(dist(p[0], p[3]) / scale)});
   r.li("tan", {uq(dist(tg[0], tg[1]), 1e-15L), uq(dist(tg[2], tg[1]), 1e-15L), uq(dist(tg[0], tg[3]), 1e-15L)});
   r.li("sa", {nmq(((LD)s12[0] - s12[1]) / scale), uq((LD)a12[0] - a12[1], 1e-13L), nmq(((LD)s12[0] - s12[3]) / scale), uq((LD)a12[0] - a12[3], 1e-13L)});
-  r.li("mm", {nmq(((LD)m12[0] - m12[1]) / scale), uq((LD)M12[0] - M12[1], 1e-15L), uq((LD)M21[0] - M21[1], 1e-15L), uq(((LD)S12[0] - S12[1]) / (scale * scale), 1e-4L),
-              nmq(((LD)m12[0] - m12[3]) / scale), uq((LD)M12[0] - M12[3], 1e-15L), uq((LD)M21[0] - M21[3], 1e-15L), uq(((LD)S12[0] - S12[3]) / (scale * scale), 1e-4L)});
+  r.li("mm", {nmq(((LD)m12[0] - m12[1]) / scale), uq((LD)M12[0] - M12[1], 1e-15L), uq((LD)M21[0] - M21[1], 1e-15L), uq(((LD)S12[0] - S12[1]) / asc, 1e-4L),
+              nmq(((LD)m12[0] - m12[3]) / scale), uq((LD)M12[0] - M12[3], 1e-15L), uq((LD)M21[0] - M21[3], 1e-15L), uq(((LD)S12[0] - S12[3]) / asc, 1e-4L)});
+  // every solver kind against its own line object, in the mode of this record: [end point nm, tangent, s12 nm, a12 1e-13 deg,
+  // unrolled longitude 1e-9 deg, m12 nm, M12, M21 1e-15, S12 1e-4 m^2]
+  { string s = "[";
+    for (int k = 0; k < 3; ++k) { int c = k + 3;
+      vector<long long> d = {nmq(dist(p[k], p[c]) / scale), uq(dist(tg[k], tg[c]), 1e-15L), nmq(((LD)s12[k] - s12[c]) / scale), uq((LD)a12[k] - a12[c], 1e-13L), uq((LD)lou[k] - lou[c], 1e-9L),
+                             nmq(((LD)m12[k] - m12[c]) / scale), uq((LD)M12[k] - M12[c], 1e-15L), uq((LD)M21[k] - M21[c], 1e-15L), uq(((LD)S12[k] - S12[c]) / asc, 1e-4L)};
+      if (k) s += ","; s += "["; for (size_t j = 0; j < d.size(); ++j) { if (j) s += ","; s += to_string(d[j]); } s += "]"; }
+    s += "]"; r.raw("lin", s); }
+  // exact=true must reproduce the exact solver: every output of GenDirect and of the line object, in ulps
+  r.li("x2", {ulpd(la[2], la[1]), ulpd(lo[2], lo[1]), ulpd(az[2], az[1]), ulpd(s12[2], s12[1]), ulpd(a12[2], a12[1]), ulpd(m12[2], m12[1]), ulpd(M12[2], M12[1]), ulpd(M21[2], M21[1]), ulpd(S12[2], S12[1]), ulpd(lou[2], lou[1]),
+              ulpd(la[5], la[4]), ulpd(lo[5], lo[4]), ulpd(az[5], az[4]), ulpd(s12[5], s12[4]), ulpd(a12[5], a12[4]), ulpd(m12[5], m12[4]), ulpd(M12[5], M12[4]), ulpd(M21[5], M21[4]), ulpd(S12[5], S12[4]), ulpd(lou[5], lou[4])});
   // L2 ranges
-  bool rng = true; for (int c = 0; c < 4; ++c) rng = rng && fabs(lo[c]) <= 180 && fabs(az[c]) <= 180 && fabs(la[c]) <= 90;
+  bool rng = true; for (int c = 0; c < 6; ++c) rng = rng && fabs(lo[c]) <= 180 && fabs(az[c]) <= 180 && fabs(la[c]) <= 90;
   r.b("rng", rng);
   // unrolled longitude: congruent to the wrapped one, and all configurations count the same circuits
-  r.li("unr", {uq(remainderl((LD)lou[0] - lo[0], 360), 1e-13L), uq((LD)lou[0] - lou[1], 1e-9L), uq((LD)lou[0] - lou[3], 1e-9L), uq((LD)lou[0] - lou[2], 1e-9L)});
+  r.li("unr", {uq(remainderl((LD)lou[0] - lo[0], 360), 1e-13L), uq((LD)lou[0] - lou[1], 1e-9L), uq((LD)lou[0] - lou[3], 1e-9L), uq((LD)lou[0] - lou[2], 1e-9L), uq(remainderl((LD)lou[1] - lo[1], 360), 1e-13L)});
   // L3 chain: n equal steps along the line; wrapped steps sum to the unrolled total; end point equals the one-shot result
-  { int n = int(g.range(2, 6)); const Sol& s = S[0]; LD sum = 0; double plon = lon1; double lt = lat1, ln = lon1; bool ok = true;
-    for (int k = 1; k <= n; ++k) { double t, l2; s.LinePos(lat1, lon1, azi1, arc, sa * k / n, false, lt, l2, t, t, t, t, t, t);
+  // (series solver; `ex` has the same for the exact solver)
+  auto chain = [&](int k, vector<long long>& out) { const Sol& s = S[k]; LD sum = 0; double plon = lon1; double lt = lat1, ln = lon1; bool ok = true; int n = nchain;
+    for (int j = 1; j <= n; ++j) { double t, l2; s.LinePos(lat1, lon1, azi1, arc, sa * j / n, false, lt, l2, t, t, t, t, t, t);
       LD step = remainderl((LD)l2 - plon, 360); if (fabsl(step) > 170.0L) ok = false; sum += step; plon = l2; ln = l2; }
-    if (fabsl((LD)lou[0] - lon1) / n > 170.0L) ok = false;       // a step must span less than half a circuit in longitude
-    LD coslat = cosl(la[0] * PIL / 180);
-    r.li("chain", {(long long) ok, uq((sum - ((LD)lou[0] - lon1)) * coslat, 1e-13L), nmq(dist(cart(a, f, lt, ln), p[3]) / scale)}); }
+    if (fabsl((LD)lou[k] - lon1) / n > 170.0L) ok = false;       // a step must span less than half a circuit in longitude
+    LD coslat = cosl(la[k] * PIL / 180);
+    out.push_back((long long) ok); out.push_back(uq((sum - ((LD)lou[k] - lon1)) * coslat, 1e-13L)); out.push_back(nmq(dist(cart(a, f, lt, ln), p[k + 3]) / scale)); };
+  { vector<long long> c; chain(0, c); r.li("chain", c); }
   // L4 arc <-> distance
-  { double t, l2a, l2o, a2; const Sol& s = S[0];
-    if (arc) a2 = s.GenDirect(lat1, lon1, azi1, false, s12[0], false, l2a, l2o, t, t, t, t, t, t); else a2 = s.GenDirect(lat1, lon1, azi1, true, a12[0], false, l2a, l2o, t, t, t, t, t, t);
-    r.li("ad", {nmq(dist(cart(a, f, l2a, l2o), p[0]) / scale), uq((LD)a2 - a12[0], 1e-13L)}); }
+  auto arcdist = [&](int k, vector<long long>& out) { double t, l2a, l2o, a2; const Sol& s = S[k];
+    if (arc) a2 = s.GenDirect(lat1, lon1, azi1, false, s12[k], false, l2a, l2o, t, t, t, t, t, t); else a2 = s.GenDirect(lat1, lon1, azi1, true, a12[k], false, l2a, l2o, t, t, t, t, t, t);
+    out.push_back(nmq(dist(cart(a, f, l2a, l2o), p[k]) / scale)); out.push_back(uq((LD)a2 - a12[k], 1e-13L)); };
+  { vector<long long> c; arcdist(0, c); r.li("ad", c); }
   // L6 Clairaut: sin(alpha) cos(beta) is the same at both ends  (tan beta = (1-f) tan phi)
   { auto cl = [&](double lat, double azi) { LD b = atanl((1 - (LD)f) * tanl(lat * PIL / 180)); if (fabs(lat) == 90) b = lat * PIL / 180; return sinl(azi * PIL / 180) * cosl(b); };
     r.li("clr", {uq(cl(lat1, azi1) - cl(la[0], az[0]), 1e-15L), uq(cl(lat1, azi1) - cl(la[1], az[1]), 1e-15L)}); }
   // C03 reversal through the line: going back from point 2 by -s12 recovers point 1, m12 unchanged in size, M12/M21 exchanged, S12 negated
-  { double t, bl, bo, bm, bM12, bM21, bS; const Sol& s = S[0];
-    s.GenDirect(la[0], lo[0], az[0], false, -s12[0], false, bl, bo, t, t, bm, bM12, bM21, bS);
-    r.li("back", {nmq(dist(cart(a, f, bl, bo), cart(a, f, lat1, lon1)) / scale), nmq(((LD)bm + m12[0]) / scale), uq((LD)bM12 - M21[0], 1e-15L), uq((LD)bM21 - M12[0], 1e-15L),
-                  uq(remainderl((LD)bS + S12[0], area) / (scale * scale), 1e-4L)}); }
-  // C03 interfaces: the overloads that return only some of m12, M12, M21, S12 (solver, arc form and line object) return the same
-  // values as the call that returns everything (units 1e-15, lengths relative to a, area relative to the ellipsoid area)
-  { vector<long long> ov; double t, o1, o2, o3;
+  auto back = [&](int k, vector<long long>& out) { double t, bl, bo, bm, bM12, bM21, bS; const Sol& s = S[k];
+    s.GenDirect(la[k], lo[k], az[k], false, -s12[k], false, bl, bo, t, t, bm, bM12, bM21, bS);
+    out.push_back(nmq(dist(cart(a, f, bl, bo), cart(a, f, lat1, lon1)) / scale)); out.push_back(nmq(((LD)bm + m12[k]) / scale)); out.push_back(uq((LD)bM12 - M21[k], 1e-15L)); out.push_back(uq((LD)bM21 - M12[k], 1e-15L));
+    out.push_back(uq(remainderl((LD)bS + S12[k], area) / asc, 1e-4L)); };
+  { vector<long long> c; back(0, c); r.li("back", c); }
+  // the same laws for the exact solver by itself: chain[3], arc<->distance[2], reversal[5]
+  { vector<long long> c; chain(1, c); arcdist(1, c); back(1, c); r.li("ex", c); }
+  // C03 interfaces: calls that request only some of m12, M12, M21, S12 return the same values as the call that returns everything
+  // (units 1e-15, lengths relative to a, area relative to the ellipsoid area); kept from the first version of the record
+  { vector<long long> ov; double t, o1 = SENT, o2 = SENT, o3 = SENT;
     auto rel = [&](double v, double ref, LD unit) { return uq(((LD)v - ref) / unit, 1e-15L); };
-    const Geodesic& G = S[0].g; const GeodesicExact& E = S[1].e;
-    if (!arc) {
-      G.Direct(lat1, lon1, azi1, sa, t, t, t, o1); ov.push_back(rel(o1, m12[0], a));                                         // m12 only
-      G.Direct(lat1, lon1, azi1, sa, t, t, t, o1, o2); ov.push_back(rel(o1, M12[0], 1)); ov.push_back(rel(o2, M21[0], 1));   // M12, M21 only
-      G.Direct(lat1, lon1, azi1, sa, t, t, t, o1, o2, o3); ov.push_back(rel(o1, m12[0], a)); ov.push_back(rel(o2, M12[0], 1)); ov.push_back(rel(o3, M21[0], 1));
-      E.Direct(lat1, lon1, azi1, sa, t, t, t, o1); ov.push_back(rel(o1, m12[1], a));
-      E.Direct(lat1, lon1, azi1, sa, t, t, t, o1, o2); ov.push_back(rel(o1, M12[1], 1)); ov.push_back(rel(o2, M21[1], 1));
-      GeodesicLine l = G.Line(lat1, lon1, azi1); l.Position(sa, t, t, t, o1, o2); ov.push_back(rel(o1, M12[0], 1)); ov.push_back(rel(o2, M21[0], 1));
-      l.Position(sa, t, t, t, o1); ov.push_back(rel(o1, m12[0], a));
-      GeodesicLineExact le = E.Line(lat1, lon1, azi1); le.Position(sa, t, t, t, o1, o2); ov.push_back(rel(o1, M12[1], 1)); ov.push_back(rel(o2, M21[1], 1));
-      G.GenDirect(lat1, lon1, azi1, false, sa, Geodesic::GEODESICSCALE, t, t, t, t, t, o1, o2, t); ov.push_back(rel(o1, M12[0], 1)); ov.push_back(rel(o2, M21[0], 1));
-      G.GenDirect(lat1, lon1, azi1, false, sa, Geodesic::AREA, t, t, t, t, t, t, t, o1); ov.push_back(rel(o1, S12[0], area));
-      E.GenDirect(lat1, lon1, azi1, false, sa, GeodesicExact::AREA, t, t, t, t, t, t, t, o1); ov.push_back(rel(o1, S12[1], area));
-    } else {
-      G.ArcDirect(lat1, lon1, azi1, sa, t, t, t, t, o1); ov.push_back(rel(o1, m12[0], a));
-      G.ArcDirect(lat1, lon1, azi1, sa, t, t, t, t, o1, o2); ov.push_back(rel(o1, M12[0], 1)); ov.push_back(rel(o2, M21[0], 1));
-      G.ArcDirect(lat1, lon1, azi1, sa, t, t, t, t, o1, o2, o3); ov.push_back(rel(o1, m12[0], a)); ov.push_back(rel(o2, M12[0], 1)); ov.push_back(rel(o3, M21[0], 1));
-      E.ArcDirect(lat1, lon1, azi1, sa, t, t, t, t, o1); ov.push_back(rel(o1, m12[1], a));
-      E.ArcDirect(lat1, lon1, azi1, sa, t, t, t, t, o1, o2); ov.push_back(rel(o1, M12[1], 1)); ov.push_back(rel(o2, M21[1], 1));
-      GeodesicLine l = G.Line(lat1, lon1, azi1); l.ArcPosition(sa, t, t, t, t, o1, o2); ov.push_back(rel(o1, M12[0], 1)); ov.push_back(rel(o2, M21[0], 1));
-      l.ArcPosition(sa, t, t, t, t, o1); ov.push_back(rel(o1, m12[0], a));
-      GeodesicLineExact le = E.Line(lat1, lon1, azi1); le.ArcPosition(sa, t, t, t, t, o1, o2); ov.push_back(rel(o1, M12[1], 1)); ov.push_back(rel(o2, M21[1], 1));
-      G.GenDirect(lat1, lon1, azi1, true, sa, Geodesic::GEODESICSCALE, t, t, t, t, t, o1, o2, t); ov.push_back(rel(o1, M12[0], 1)); ov.push_back(rel(o2, M21[0], 1));
-      G.GenDirect(lat1, lon1, azi1, true, sa, Geodesic::AREA, t, t, t, t, t, t, t, o1); ov.push_back(rel(o1, S12[0], area));
-      E.GenDirect(lat1, lon1, azi1, true, sa, GeodesicExact::AREA, t, t, t, t, t, t, t, o1); ov.push_back(rel(o1, S12[1], area));
-    }
+    const Geodesic& G = S[0].g; const GeodesicExact& X = S[1].e; LD ar0 = S[0].Area();
+    G.GenDirect(lat1, lon1, azi1, arc, sa, Geodesic::GEODESICSCALE, t, t, t, t, t, o1, o2, t); ov.push_back(rel(o1, M12[0], 1)); ov.push_back(rel(o2, M21[0], 1));
+    G.GenDirect(lat1, lon1, azi1, arc, sa, Geodesic::AREA, t, t, t, t, t, t, t, o1); ov.push_back(rel(o1, S12[0], ar0));
+    X.GenDirect(lat1, lon1, azi1, arc, sa, GeodesicExact::AREA, t, t, t, t, t, t, t, o1); ov.push_back(rel(o1, S12[1], area));
+    X.GenDirect(lat1, lon1, azi1, arc, sa, GeodesicExact::GEODESICSCALE, t, t, t, t, t, o1, o2, t); ov.push_back(rel(o1, M12[1], 1)); ov.push_back(rel(o2, M21[1], 1));
+    X.GenDirect(lat1, lon1, azi1, arc, sa, GeodesicExact::REDUCEDLENGTH, t, t, t, t, o3, t, t, t); ov.push_back(rel(o3, m12[1], a));
+    G.GenDirect(lat1, lon1, azi1, arc, sa, Geodesic::REDUCEDLENGTH, t, t, t, t, o3, t, t, t); ov.push_back(rel(o3, m12[0], a));
     r.li("ovl", ov); }
+  if (ovl) {
+    // overload agreement: every public overload of Direct / ArcDirect / Position / ArcPosition of the three solver kinds
+    string s; LD ar0 = S[0].Area();
+    ov_direct<Geodesic, GeodesicLine>(s, 0, S[0].g, lat1, lon1, azi1, arc, sa, a, double(ar0));
+    ov_direct<GeodesicExact, GeodesicLineExact>(s, 1, S[1].e, lat1, lon1, azi1, arc, sa, a, double(area));
+    ov_direct<Geodesic, GeodesicLine>(s, 2, S[2].g, lat1, lon1, azi1, arc, sa, a, double(area));
+    r.raw("ov", "[" + s + "]");
+    // constructor forms: a line whose third point is point 2 of this direct problem.  [cls, form, d given (ulp of GenDistance in
+    // the mode the third point was given in), d other (1e-15, relative), ulps of the position at the third point against
+    // GenDirect, nm of the position reached through the other measure]
+    string c;
+    for (int k = 0; k < 3; ++k) for (const Form& fm : FORMS) {
+      if (fm.arc != (arc ? 1 : 0)) continue;
+      double dg = SENT, dz = SENT, x[3] = {SENT, SENT, SENT}, y[2] = {SENT, SENT};
+      auto probe = [&](auto& l, unsigned m3, unsigned m2) { dg = l.GenDistance(arc); dz = l.GenDistance(!arc); double t;
+        l.GenPosition(arc, dg, m3, x[0], x[1], x[2], t, t, t, t, t);
+        l.GenPosition(!arc, dz, m2, y[0], y[1], t, t, t, t, t, t); };
+      if (k == 1) { const GeodesicExact& X = S[1].e; GeodesicLineExact l;
+        switch (fm.form) { case 1: l = X.DirectLine(lat1, lon1, azi1, sa); break; case 2: l = X.ArcDirectLine(lat1, lon1, azi1, sa); break;
+          case 3: case 4: l = X.GenDirectLine(lat1, lon1, azi1, arc, sa); break;
+          case 5: l = X.Line(lat1, lon1, azi1); l.SetDistance(sa); break; case 6: l = X.Line(lat1, lon1, azi1); l.SetArc(sa); break;
+          case 7: case 8: l = GeodesicLineExact(X, lat1, lon1, azi1); l.GenSetDistance(arc, sa); break; }
+        probe(l, GeodesicExact::LATITUDE | GeodesicExact::LONGITUDE | GeodesicExact::AZIMUTH, GeodesicExact::LATITUDE | GeodesicExact::LONGITUDE); }
+      else { const Geodesic& G = S[k].g; GeodesicLine l;
+        switch (fm.form) { case 1: l = G.DirectLine(lat1, lon1, azi1, sa); break; case 2: l = G.ArcDirectLine(lat1, lon1, azi1, sa); break;
+          case 3: case 4: l = G.GenDirectLine(lat1, lon1, azi1, arc, sa); break;
+          case 5: l = G.Line(lat1, lon1, azi1); l.SetDistance(sa); break; case 6: l = G.Line(lat1, lon1, azi1); l.SetArc(sa); break;
+          case 7: case 8: l = GeodesicLine(G, lat1, lon1, azi1); l.GenSetDistance(arc, sa); break; }
+        probe(l, Geodesic::LATITUDE | Geodesic::LONGITUDE | Geodesic::AZIMUTH, Geodesic::LATITUDE | Geodesic::LONGITUDE); }
+      long long du = max(max(ulpd(x[0], la[k]), ulpd(x[1], lo[k])), ulpd(x[2], az[k]));
+      if (!c.empty()) c += ",";
+      c += "[" + to_string(k) + "," + to_string(fm.form) + "," + to_string(ulpd(dg, sa)) + "," + to_string(arc ? relq(dz, s12[k], a) : relq(dz, a12[k], 360)) + "," + to_string(du) + "," +
+           to_string(nmq(dist(cart(a, f, y[0], y[1]), p[k]) / scale)) + "]"; }
+    r.raw("ct", "[" + c + "]");
+  }
+  if (adef) {
+    // definition of S12 by quadrature along the exact line (P and 2P panels): [|S12 exact - I(2P)|, |I(2P) - I(P)|, |S12 series - I(2P)|,
+    // |S12 exact=true line - I(2P)|] in 1e-4 m^2 (WGS84 size), the smallest cos(beta) along the path (1e-6), the conditioning kq, |sin(alpha0)|
+    GeodesicLineExact l = S[1].e.Line(lat1, lon1, azi1, GeodesicExact::LATITUDE | GeodesicExact::AZIMUTH | GeodesicExact::DISTANCE_IN);
+    auto pos = [&](double s, double& la_, double& az_) { double t; l.Position(s, la_, t, az_); };
+    int P = 8 + int(fabs(a12[1]) / 6);
+    auto cbeta = [&](double lat) { LD sp = sinl(lat * PIL / 180), cp = cosl(lat * PIL / 180); if (fabs(lat) == 90) cp = 0; return cp / hypotl(cp, (1 - (LD)f) * sp); };
+    LD cpath = min(cbeta(lat1), cbeta(la[1]));      // smallest cos(beta) met along the path (at the nodes and the ends)
+    LD kmax = max(kappa(a, f, lat1), kappa(a, f, la[1]));
+    LD i1 = area_def(a, f, s12[1], P, pos, cpath, kmax), i2 = area_def(a, f, s12[1], 2 * P, pos, cpath, kmax);
+    // refine while the two rules disagree by more than 1e-3 m^2 (WGS84 size); the disagreement is part of the record
+    for (int it = 0; it < 4 && fabsl(i2 - i1) / asc > 1e-3L; ++it) { P *= 2; i1 = i2; i2 = area_def(a, f, s12[1], 2 * P, pos, cpath, kmax); }
+    r.li("adef", {uq(((LD)S12[1] - i2) / asc, 1e-4L), uq((i2 - i1) / asc, 1e-4L), uq(((LD)S12[0] - i2) / asc, 1e-4L), uq(((LD)S12[5] - i2) / asc, 1e-4L), max(1LL, vt::q1(cpath, 1e-6L)), kq(kmax, scale, asc),
+                  // smallest cos(beta) that the whole geodesic reaches (Clairaut: |sin(alpha0)| = |sin(azi1)| cos(beta1)), 1e-6
+                  max(1LL, vt::q1(fabsl(sinl(azi1 * PIL / 180) * cosl(atanl((1 - (LD)f) * tanl(lat1 * PIL / 180)))) * (fabs(lat1) == 90 ? 0 : 1), 1e-6L))});
+  }
+}
+
+static void direct_law(vt::Rng& g, long long id, uint64_t seed, bool ext) {
+  vt::Rng g2(seed * 1000003ULL + uint64_t(id) * 7919ULL + (ext ? 17 : 5));
+  Ell E; double lat1, lon1, azi1, sa; bool arc;
+  if (!ext) {
+    int fi = int(g.range(0, NF - 1)); double a = g.coin() ? 6378137.0 : (g.coin() ? 6.4e6 : 1.0);
+    E = base_ell(fi, a);
+    lat1 = g.uni(-90, 90); lon1 = g.uni(-180, 180); azi1 = g.uni(-180, 180);
+    int w = int(g.range(0, 9));
+    if (w == 0) lat1 = g.coin() ? 90 : -90; if (w == 1) lat1 = 0; if (w == 2) azi1 = 90.0 * double(g.range(-2, 2)); if (w == 3) lon1 = g.uni(-720, 720);
+    arc = g.coin();
+    sa = arc ? g.uni(-1, 1) * pow(10.0, g.uni(-6, 3.5)) : g.uni(-1, 1) * pow(10.0, g.uni(-3, 8.5)) * double(E.scale);
+  } else {
+    // extended family: the published table of the series solver (|f| = 0.05, 0.1) and b/a = 2^k, k = +-1 .. +-6, for the exact solver
+    double a = g.coin() ? 6378137.0 : 6.4e6;
+    if (g.range(0, 3) == 0) E = base_ell(int(g.range(9, 12)), a);
+    else { int k = int(g.range(1, 6)); E = g.coin() ? ratio_ell(1, 1LL << k, a) : ratio_ell(1LL << k, 1, a); }
+    lat1 = g.uni(-90, 90); lon1 = g.uni(-180, 180); azi1 = g.uni(-180, 180);
+    int w = int(g.range(0, 9));
+    if (w == 0) lat1 = g.coin() ? 90 : -90; if (w == 1) lat1 = 0; if (w == 2) azi1 = 90.0 * double(g.range(-2, 2)); if (w == 3) lon1 = g.uni(-720, 720);
+    arc = g.coin();
+    // distances in units of the quarter meridian, up to about 10 circuits
+    sa = arc ? g.uni(-1, 1) * pow(10.0, g.uni(-6, 3.5)) : g.uni(-1, 1) * pow(10.0, g.uni(-3, 8.5)) * double(E.scale);
+  }
+  int nchain = int(g.range(2, 6));
+  Rec r; r.str("e", "dl").i("id", id); ell_fields(r, E);
+  bool adef = id % 4 == 1 && fabs(sa) < (arc ? 200.0 : 2.0e7 * double(E.scale));
+  direct_core(r, E, lat1, lon1, azi1, arc, sa, nchain, id % 4 == 0, adef);
+  (void) g2;
   r.emit();
 }
 
-static void inverse_law(vt::Rng& g, long long id, const vector<Sym>& syms) {
-  int fi = int(g.range(0, NF - 1)); double f = FS[fi], a = g.coin() ? 6378137.0 : (g.coin() ? 6.4e6 : 1.0);
-  LD scale = a / 6378137.0L;
-  double lat1 = g.uni(-90, 90), lon1 = g.uni(-180, 180), lat2 = g.uni(-90, 90), lon2 = g.uni(-180, 180);
-  int cls = int(g.range(0, 12));   // regimes of the inverse problem
+// one record of the ellipsoid walk (TLC chooses j, lat1, azi1, a12, mode): the exact solver on n = j/200, quarter meridian 10 000 km
+void walk_record(long long j, long long lat1, long long azi1, long long a12, long long mode) {
+  // b/a = (1 - n)/(1 + n) = (200 - j)/(200 + j); a chosen so that the quarter meridian is 10 000 km (the normalisation of the
+  // error table in GeodesicExact.hpp)
+  double f = double(2 * (LD)j / (200 + (LD)j));
+  double a = double(1.0e7L / quarter_meridian(1.0, f));
+  Ell E = ratio_ell(200 - j, 200 + j, a);
+  Rec r; r.str("e", "dl").i("id", 4 * (j + 200) + 1).i("j", j).li("in", {lat1, azi1, a12, mode}); ell_fields(r, E);
+  bool arc = mode == 0; double sa = double(a12);
+  if (!arc) { GeodesicExact ge(a, f); double t; ge.ArcDirect(double(lat1), 0.0, double(azi1), double(a12), t, t, t, sa); }
+  direct_core(r, E, double(lat1), 10.0, double(azi1), arc, sa, 3, true, true);
+  // anchors that need no second solver: along a meridian the quarter meridian (complete elliptic integral, AGM) leads from the
+  // equator to the pole and twice that to the equator on the opposite meridian; along the equator lon2 - lon1 = s12 / a;
+  // the inverse problem from the equator to a pole returns the quarter meridian.  [nm x 4] for GeodesicExact
+  { GeodesicExact ge(a, f); LD qm = quarter_meridian(a, f); double la, lo, s; LD scale = E.scale;
+    vector<long long> an;
+    ge.Direct(0.0, 10.0, 0.0, double(qm), la, lo); an.push_back(nmq(dist(cart(a, f, la, lo), cart(a, f, 90, 10)) / scale));
+    ge.Direct(0.0, 10.0, 0.0, double(2 * qm), la, lo); an.push_back(nmq(dist(cart(a, f, la, lo), cart(a, f, 0, 190)) / scale));
+    ge.Direct(0.0, 10.0, 90.0, double((LD)a * PIL / 3), la, lo); an.push_back(nmq(dist(cart(a, f, la, lo), cart(a, f, 0, 70)) / scale));
+    ge.Inverse(0.0, 10.0, 90.0, -55.0, s); an.push_back(nmq(((LD)s - qm) / scale));
+    r.li("anc", an);
+    // input class of a known finding (inputs only): the equatorial anchor on b/a < 1/32
+    if (32 * (200 - j) < 200 + j) r.str("kf", "exact-direct-equator-very-oblate"); }
+  // ellipsoid area of both classes against the closed form (1e-16 relative)
+  { Geodesic gg(a, f); GeodesicExact ge(a, f); Geodesic gx(a, f, true); LD cf = area_closed(a, f), relu = 1e-16L * cf;
+    r.li("area", {uq(gg.EllipsoidArea() - cf, relu), uq(ge.EllipsoidArea() - cf, relu), uq(gx.EllipsoidArea() - cf, relu)}); }
+  r.emit();
+}
+
+// ------------------------------------------------------------------ law records: the inverse problem
+static void inverse_core(Rec& r, vt::Rng& g, const Ell& E, int cls, double lat1, double lon1, double lat2, double lon2, const vector<Sym>& syms, bool ovl) {
+  double a = E.a, f = E.f; LD scale = E.scale;
+  Sol S[3] = {Sol(0, a, f), Sol(1, a, f), Sol(2, a, f)};
+  double s12[3], azi1[3], azi2[3], m12[3], M12[3], M21[3], S12[3], a12[3];
+  for (int c = 0; c < 3; ++c) a12[c] = S[c].GenInverse(lat1, lon1, lat2, lon2, s12[c], azi1[c], azi2[c], m12[c], M12[c], M21[c], S12[c]);
+  LD area = S[1].Area(), asc = area / 510065621724088.44L; if (E.fi <= 8) asc = scale * scale;
+  r.i("cls", cls);
+  if (getenv("VERIF_DBG")) { char b[200]; snprintf(b, 200, "\"%.17g %.17g %.17g %.17g a=%.17g f=%.17g\"", lat1, lon1, lat2, lon2, a, f); r.raw("dbg", b); }
+  r.i("cmin", max(1LL, vt::q1(min(cosl(lat1 * PIL / 180), cosl(lat2 * PIL / 180)), 1e-6L)));
+  // how far the pair is from the non-unique configurations (degrees, 1e-9 units, clipped)
+  r.li("deg", {uq(fabsl((LD)lat1 + lat2), 1e-9L), uq(180 - fabsl(remainderl((LD)lon2 - lon1, 360)), 1e-9L), nmq((LD)s12[1] / scale),
+               uq(90 - fabs(lat1), 1e-9L), uq(90 - fabs(lat2), 1e-9L)});
+  // the catalogue of non-unique shortest geodesics (Geodesic.hpp): lat1 = -lat2 is unique only if azi1 = azi2;
+  // lon2 = lon1 +- 180 is unique only if azi1 = 0 or +-180
+  r.i("m12m", vt::q1(fabsl((LD)m12[1]) / scale, 1.0L));
+  r.i("s12m", vt::q1(fabsl((LD)s12[1]) / scale, 1.0L));    // length in metres (WGS84 size): short lines
+  r.i("kq", kq(max(kappa(a, f, lat1), kappa(a, f, lat2)), scale, asc));
+  // input classes of known findings (computed from the inputs only)
+  { double l12 = fabs(double(remainderl((LD)lon2 - lon1, 360)));
+    if (f <= -0.2 && max(fabs(lat1), fabs(lat2)) < 1e-3 && max(fabs(lat1), fabs(lat2)) > 0 && l12 >= 90) r.str("kf", "exact-inverse-prolate-nearly-equatorial"); }
+  r.i("mx", vt::q1(ceill(max((LD)1, max(fabsl((LD)M12[1]), fabsl((LD)M21[1])))), 1.0L));      // |m12| in metres (WGS84 size): conditioning of the azimuths
+  r.b("eqaz", azi1[1] == azi2[1] && azi1[0] == azi2[0]).b("meraz", fabs(azi1[1]) == 0 || fabs(azi1[1]) == 180);
+  // I1 closure through the direct problem, each solver by itself: by distance (clo, clt) and by the returned arc length (cla)
+  vector<long long> clo, clt, cla;
+  for (int c = 0; c < 3; ++c) { double la, lo, az, t; S[c].GenDirect(lat1, lon1, azi1[c], false, s12[c], false, la, lo, az, t, t, t, t, t);
+    clo.push_back(nmq(dist(cart(a, f, la, lo), cart(a, f, lat2, lon2)) / scale)); clt.push_back(uq(dist(tangent(la, lo, az), tangent(lat2, lon2, azi2[c])), 1e-15L));
+    S[c].GenDirect(lat1, lon1, azi1[c], true, a12[c], false, la, lo, az, t, t, t, t, t);
+    cla.push_back(nmq(dist(cart(a, f, la, lo), cart(a, f, lat2, lon2)) / scale)); }
+  r.li("clo", clo).li("clt", clt).li("cla", cla);
+  // I2 shortest: arc length in [0, 180]
+  r.b("arc", a12[0] >= 0 && a12[0] <= 180 && a12[1] >= 0 && a12[1] <= 180 && a12[2] >= 0 && a12[2] <= 180 &&
+             fabs(azi1[0]) <= 180 && fabs(azi2[0]) <= 180 && fabs(azi1[1]) <= 180 && fabs(azi2[1]) <= 180);
+  r.b("arcx", a12[1] >= 0 && a12[1] <= 180 && a12[2] >= 0 && a12[2] <= 180 && fabs(azi1[1]) <= 180 && fabs(azi2[1]) <= 180 && fabs(azi1[2]) <= 180 && fabs(azi2[2]) <= 180);
+  // triangle inequality through a random third point, and s12 = s21
+  { double la3 = g.uni(-90, 90), lo3 = g.uni(-180, 180), s13, s32, s21, t; S[1].GenInverse(lat1, lon1, la3, lo3, s13, t, t, t, t, t, t); S[1].GenInverse(la3, lo3, lat2, lon2, s32, t, t, t, t, t, t);
+    S[1].GenInverse(lat2, lon2, lat1, lon1, s21, t, t, t, t, t, t);
+    LD ex = ((LD)s12[1] - s13 - s32) / scale; r.li("tri", {ex > 0 ? nmq(ex) : 0, nmq(((LD)s12[1] - s21) / scale)}); }
+  // shortest: the detours through either pole and through the two equatorial points of the mid-meridian are not shorter
+  { vector<long long> t2; double t; double mid = double((LD)lon1 + remainderl((LD)lon2 - lon1, 360) / 2);
+    const double P3[4][2] = {{90, 0}, {-90, 0}, {0, mid}, {0, mid + 180}};
+    for (const auto& q : P3) { double s13, s32; S[1].GenInverse(lat1, lon1, q[0], q[1], s13, t, t, t, t, t, t); S[1].GenInverse(q[0], q[1], lat2, lon2, s32, t, t, t, t, t, t);
+      LD ex = ((LD)s12[1] - s13 - s32) / scale; t2.push_back(ex > 0 ? nmq(ex) : 0); }
+    r.li("tri2", t2); }
+  // I4 series == exact == exact=true
+  r.li("agr", {nmq(((LD)s12[0] - s12[1]) / scale), nmq(((LD)s12[2] - s12[1]) / scale), uq((LD)a12[0] - a12[1], 1e-13L),
+               uq(dist(tangent(lat1, lon1, azi1[0]), tangent(lat1, lon1, azi1[1])), 1e-15L), uq(dist(tangent(lat2, lon2, azi2[0]), tangent(lat2, lon2, azi2[1])), 1e-15L),
+               nmq(((LD)m12[0] - m12[1]) / scale), uq((LD)M12[0] - M12[1], 1e-15L), uq((LD)M21[0] - M21[1], 1e-15L), uq(remainderl((LD)S12[0] - S12[1], area) / asc, 1e-4L)});
+  // exact=true must reproduce the exact solver: every output, in ulps
+  r.li("x2", {ulpd(a12[2], a12[1]), ulpd(s12[2], s12[1]), ulpd(azi1[2], azi1[1]), ulpd(azi2[2], azi2[1]), ulpd(m12[2], m12[1]), ulpd(M12[2], M12[1]), ulpd(M21[2], M21[1]), ulpd(S12[2], S12[1])});
+  // I3 symmetry group: interpret each descriptor emitted by TLC from GeodSym.tla (on the exact-only family kind 0 is replaced by kind 1)
+  { string sy = "[";
+    for (size_t k = 0; k < syms.size(); ++k) { const Sym& y = syms[k]; int kk = int(g.range(-1, 1)), k2 = int(g.range(-1, 1));
+      double A1 = y.ls * (y.sw ? lat2 : lat1), A2 = y.ls * (y.sw ? lat1 : lat2), O1 = y.ms * (y.sw ? lon2 : lon1) + 360.0 * kk, O2 = y.ms * (y.sw ? lon1 : lon2) + 360.0 * k2;
+      double ts12, tz1, tz2, tm12, tM12, tM21, tS12; int c = int(k % 3); if (E.fi > 8 && c == 0) c = 1; const Sol& s = S[c];
+      double ta12 = s.GenInverse(A1, O1, A2, O2, ts12, tz1, tz2, tm12, tM12, tM21, tS12);
+      LD p1 = y.as * (LD)(y.sw ? azi2[c] : azi1[c]) + y.ao, p2 = y.as * (LD)(y.sw ? azi1[c] : azi2[c]) + y.ao;
+      vector<long long> d = { nmq(((LD)ts12 - s12[c]) / scale), uq((LD)ta12 - a12[c], 1e-13L),
+                              uq(dist(tangent(A1, O1, tz1), tangent(A1, O1, double(p1))), 1e-15L), uq(dist(tangent(A2, O2, tz2), tangent(A2, O2, double(p2))), 1e-15L),
+                              nmq(((LD)tm12 - m12[c]) / scale), uq((LD)tM12 - (y.sw ? M21[c] : M12[c]), 1e-15L), uq((LD)tM21 - (y.sw ? M12[c] : M21[c]), 1e-15L),
+                              uq(remainderl((LD)tS12 - y.ss * (LD)S12[c], area) / asc, 1e-4L) };
+      if (k) sy += ","; sy += "["; for (size_t j = 0; j < d.size(); ++j) { if (j) sy += ","; sy += to_string(d[j]); } sy += "]"; }
+    sy += "]"; r.raw("sym", sy); }
+  // C03 interface agreement: the direct solution along the returned azimuth gives the same m12, M12, M21, S12 (series; itf1: exact)
+  for (int c = 0; c < 2; ++c) { double la, lo, az, t, dm, dM12, dM21, dS; S[c].GenDirect(lat1, lon1, azi1[c], false, s12[c], false, la, lo, az, t, dm, dM12, dM21, dS);
+    r.li(c ? "itf1" : "itf", {nmq(((LD)dm - m12[c]) / scale), uq((LD)dM12 - M12[c], 1e-15L), uq((LD)dM21 - M21[c], 1e-15L), uq(remainderl((LD)dS - S12[c], area) / asc, 1e-4L)}); }
+  // InverseLine of every kind: [Distance() vs s12 (nm), Arc() vs a12 (1e-13 deg), tangent of Azimuth() vs azi1 (1e-15),
+  // nm from point 2 of the third point reached by Distance(), and by Arc()]
+  { string s = "[";
+    for (int c = 0; c < 3; ++c) { double a13, s13, z1, la, lo, laa, loa; S[c].InvLine(lat1, lon1, lat2, lon2, a13, s13, z1, la, lo, laa, loa);
+      V3 p2 = cart(a, f, lat2, lon2);
+      vector<long long> d = {nmq(((LD)s13 - s12[c]) / scale), uq((LD)a13 - a12[c], 1e-13L), uq(dist(tangent(lat1, lon1, z1), tangent(lat1, lon1, azi1[c])), 1e-15L),
+                             nmq(dist(cart(a, f, la, lo), p2) / scale), nmq(dist(cart(a, f, laa, loa), p2) / scale)};
+      if (c) s += ","; s += "["; for (size_t j = 0; j < d.size(); ++j) { if (j) s += ","; s += to_string(d[j]); } s += "]"; }
+    s += "]"; r.raw("ln", s); }
+  // calls that request only some outputs through the output mask
+  { vector<long long> ov; double t, o1 = SENT, o2 = SENT;
+    auto rel = [&](double v, double ref, LD unit) { return uq(((LD)v - ref) / unit, 1e-15L); };
+    const Geodesic& G = S[0].g; const GeodesicExact& X = S[1].e; LD ar0 = S[0].Area();
+    G.GenInverse(lat1, lon1, lat2, lon2, Geodesic::GEODESICSCALE, t, t, t, t, o1, o2, t); ov.push_back(rel(o1, M12[0], 1)); ov.push_back(rel(o2, M21[0], 1));
+    G.GenInverse(lat1, lon1, lat2, lon2, Geodesic::AREA, t, t, t, t, t, t, o1); ov.push_back(rel(o1, S12[0], ar0));
+    X.GenInverse(lat1, lon1, lat2, lon2, GeodesicExact::AREA, t, t, t, t, t, t, o1); ov.push_back(rel(o1, S12[1], area));
+    X.GenInverse(lat1, lon1, lat2, lon2, GeodesicExact::REDUCEDLENGTH, t, t, t, o1, t, t, t); ov.push_back(rel(o1, m12[1], a));
+    X.GenInverse(lat1, lon1, lat2, lon2, GeodesicExact::GEODESICSCALE, t, t, t, t, o1, o2, t); ov.push_back(rel(o1, M12[1], 1)); ov.push_back(rel(o2, M21[1], 1));
+    r.li("ovl", ov); }
+  if (ovl) {
+    string s; LD ar0 = S[0].Area();
+    ov_inverse(s, 0, S[0].g, lat1, lon1, lat2, lon2, a, double(ar0));
+    ov_inverse(s, 1, S[1].e, lat1, lon1, lat2, lon2, a, double(area));
+    ov_inverse(s, 2, S[2].g, lat1, lon1, lat2, lon2, a, double(area));
+    r.raw("ov", "[" + s + "]");
+  }
+}
+
+static void inverse_law(vt::Rng& g, long long id, const vector<Sym>& syms, bool ext) {
+  Ell E; int cls;
+  double lat1, lon1, lat2, lon2;
+  if (!ext) {
+    int fi = int(g.range(0, NF - 1)); double a = g.coin() ? 6378137.0 : (g.coin() ? 6.4e6 : 1.0);
+    E = base_ell(fi, a);
+    lat1 = g.uni(-90, 90); lon1 = g.uni(-180, 180); lat2 = g.uni(-90, 90); lon2 = g.uni(-180, 180);
+    cls = int(g.range(0, 12));   // regimes of the inverse problem
+  } else {
+    // extended records: half of them on the base family in the regimes 13..16, half on the extended family in every regime
+    double a = g.coin() ? 6378137.0 : 6.4e6;
+    bool newcls = g.coin();
+    if (newcls) E = base_ell(int(g.range(0, NF - 1)), a);
+    else if (g.range(0, 3) == 0) E = base_ell(int(g.range(9, 12)), a);
+    else { int k = int(g.range(1, 6)); E = g.coin() ? ratio_ell(1, 1LL << k, a) : ratio_ell(1LL << k, 1, a); }
+    lat1 = g.uni(-90, 90); lon1 = g.uni(-180, 180); lat2 = g.uni(-90, 90); lon2 = g.uni(-180, 180);
+    cls = newcls ? int(g.range(13, 16)) : int(g.range(0, 16));
+  }
+  double f = E.f;
   switch (cls) {
   case 1: lon2 = lon1; break;                                                  // meridional
   case 2: lat1 = lat2 = 0; break;                                              // equatorial (incl. beyond the break-away longitude)
@@ -238,74 +666,25 @@ static void inverse_law(vt::Rng& g, long long id, const vector<Sym>& syms) {
   case 10: { double sg = g.coin() ? 1 : -1;                                    // short lines right next to a pole, any two meridians
     lat1 = sg * (90 - pow(10.0, g.uni(-9, -5))); lat2 = sg * (90 - pow(10.0, g.uni(-9, -5))); break; }
   case 11: lat1 = g.uni(-90, 90); lat2 = lat1 + g.uni(-1, 1) * pow(10.0, g.uni(-9, -5)); lon2 = lon1 + g.uni(-1, 1) * pow(10.0, g.uni(-9, -5)); lat2 = max(-90.0, min(90.0, lat2)); break; // short (mm .. m)
+  case 13: lat2 = lat1; break;                                                 // same parallel, generic longitude difference
+  case 14: lat2 = -lat1; break;                                                // mirror parallels, generic longitude difference
+  case 15: { lat1 = lat2 = 0; double t = g.uni(0, 2); lon2 = lon1 + (g.coin() ? 1 : -1) * 180 * (1 - fabs(f) * t); break; }   // equator, around the break-away longitude 180 (1 - f)
+  case 16: { double t = g.uni(0, 2); lat1 = g.uni(-1, 1) * pow(10.0, g.uni(-12, -3)); lat2 = g.uni(-1, 1) * pow(10.0, g.uni(-12, -3));   // nearly equatorial, same longitudes
+    lon2 = lon1 + (g.coin() ? 1 : -1) * 180 * (1 - fabs(f) * t); break; }
   default: break;
   }
-  Sol S[3] = {Sol(0, a, f), Sol(1, a, f), Sol(2, a, f)};
-  double s12[3], azi1[3], azi2[3], m12[3], M12[3], M21[3], S12[3], a12[3];
-  for (int c = 0; c < 3; ++c) a12[c] = S[c].GenInverse(lat1, lon1, lat2, lon2, s12[c], azi1[c], azi2[c], m12[c], M12[c], M21[c], S12[c]);
-  LD area = S[0].Area();
-  Rec r; r.str("e", "il").i("id", id).i("fi", fi).i("cls", cls).i("aq", vt::q1(a, 1.0L));
-  r.i("cmin", max(1LL, vt::q1(min(cosl(lat1 * PIL / 180), cosl(lat2 * PIL / 180)), 1e-6L)));
-  // how far the pair is from the non-unique configurations (degrees, 1e-9 units, clipped)
-  r.li("deg", {uq(fabsl((LD)lat1 + lat2), 1e-9L), uq(180 - fabsl(remainderl((LD)lon2 - lon1, 360)), 1e-9L), nmq((LD)s12[1] / scale),
-               uq(90 - fabs(lat1), 1e-9L), uq(90 - fabs(lat2), 1e-9L)});
-  // the catalogue of non-unique shortest geodesics (Geodesic.hpp): lat1 = -lat2 is unique only if azi1 = azi2;
-  // lon2 = lon1 +- 180 is unique only if azi1 = 0 or +-180
-  r.i("m12m", vt::q1(fabsl((LD)m12[1]) / scale, 1.0L));      // |m12| in metres (WGS84 size): conditioning of the azimuths
-  r.b("eqaz", azi1[1] == azi2[1] && azi1[0] == azi2[0]).b("meraz", fabs(azi1[1]) == 0 || fabs(azi1[1]) == 180);
-  // I1 closure through the direct problem, each solver by itself
-  vector<long long> clo, clt;
-  for (int c = 0; c < 3; ++c) { double la, lo, az, t; S[c].GenDirect(lat1, lon1, azi1[c], false, s12[c], false, la, lo, az, t, t, t, t, t);
-    clo.push_back(nmq(dist(cart(a, f, la, lo), cart(a, f, lat2, lon2)) / scale)); clt.push_back(uq(dist(tangent(la, lo, az), tangent(lat2, lon2, azi2[c])), 1e-15L)); }
-  r.li("clo", clo).li("clt", clt);
-  // I2 shortest: arc length in [0, 180]
-  r.b("arc", a12[0] >= 0 && a12[0] <= 180 && a12[1] >= 0 && a12[1] <= 180 && a12[2] >= 0 && a12[2] <= 180 &&
-             fabs(azi1[0]) <= 180 && fabs(azi2[0]) <= 180 && fabs(azi1[1]) <= 180 && fabs(azi2[1]) <= 180);
-  // triangle inequality through a random third point, and s12 = s21
-  { double la3 = g.uni(-90, 90), lo3 = g.uni(-180, 180), s13, s32, s21, t; S[1].GenInverse(lat1, lon1, la3, lo3, s13, t, t, t, t, t, t); S[1].GenInverse(la3, lo3, lat2, lon2, s32, t, t, t, t, t, t);
-    S[1].GenInverse(lat2, lon2, lat1, lon1, s21, t, t, t, t, t, t);
-    LD ex = ((LD)s12[1] - s13 - s32) / scale; r.li("tri", {ex > 0 ? nmq(ex) : 0, nmq(((LD)s12[1] - s21) / scale)}); }
-  // I4 series == exact == exact=true
-  r.li("agr", {nmq(((LD)s12[0] - s12[1]) / scale), nmq(((LD)s12[2] - s12[1]) / scale), uq((LD)a12[0] - a12[1], 1e-13L),
-               uq(dist(tangent(lat1, lon1, azi1[0]), tangent(lat1, lon1, azi1[1])), 1e-15L), uq(dist(tangent(lat2, lon2, azi2[0]), tangent(lat2, lon2, azi2[1])), 1e-15L),
-               nmq(((LD)m12[0] - m12[1]) / scale), uq((LD)M12[0] - M12[1], 1e-15L), uq((LD)M21[0] - M21[1], 1e-15L), uq(remainderl((LD)S12[0] - S12[1], area) / (scale * scale), 1e-4L)});
-  // I3 symmetry group: interpret each descriptor emitted by TLC from GeodSym.tla
-  { string sy = "[";
-    for (size_t k = 0; k < syms.size(); ++k) { const Sym& y = syms[k]; int kk = int(g.range(-1, 1)), k2 = int(g.range(-1, 1));
-      double A1 = y.ls * (y.sw ? lat2 : lat1), A2 = y.ls * (y.sw ? lat1 : lat2), O1 = y.ms * (y.sw ? lon2 : lon1) + 360.0 * kk, O2 = y.ms * (y.sw ? lon1 : lon2) + 360.0 * k2;
-      double ts12, tz1, tz2, tm12, tM12, tM21, tS12; const Sol& s = S[k % 3]; int c = int(k % 3);
-      double ta12 = s.GenInverse(A1, O1, A2, O2, ts12, tz1, tz2, tm12, tM12, tM21, tS12);
-      LD p1 = y.as * (LD)(y.sw ? azi2[c] : azi1[c]) + y.ao, p2 = y.as * (LD)(y.sw ? azi1[c] : azi2[c]) + y.ao;
-      vector<long long> d = { nmq(((LD)ts12 - s12[c]) / scale), uq((LD)ta12 - a12[c], 1e-13L),
-                              uq(dist(tangent(A1, O1, tz1), tangent(A1, O1, double(p1))), 1e-15L), uq(dist(tangent(A2, O2, tz2), tangent(A2, O2, double(p2))), 1e-15L),
-                              nmq(((LD)tm12 - m12[c]) / scale), uq((LD)tM12 - (y.sw ? M21[c] : M12[c]), 1e-15L), uq((LD)tM21 - (y.sw ? M12[c] : M21[c]), 1e-15L),
-                              uq(remainderl((LD)tS12 - y.ss * (LD)S12[c], area) / (scale * scale), 1e-4L) };
-      if (k) sy += ","; sy += "["; for (size_t j = 0; j < d.size(); ++j) { if (j) sy += ","; sy += to_string(d[j]); } sy += "]"; }
-    sy += "]"; r.raw("sym", sy); }
-  // C03 interface agreement: the direct solution along the returned azimuth gives the same m12, M12, M21, S12
-  { double la, lo, az, t, dm, dM12, dM21, dS; S[0].GenDirect(lat1, lon1, azi1[0], false, s12[0], false, la, lo, az, t, dm, dM12, dM21, dS);
-    r.li("itf", {nmq(((LD)dm - m12[0]) / scale), uq((LD)dM12 - M12[0], 1e-15L), uq((LD)dM21 - M21[0], 1e-15L), uq(remainderl((LD)dS - S12[0], area) / (scale * scale), 1e-4L)}); }
-  // C03 interfaces: the Inverse overloads returning only some of m12, M12, M21, S12 agree with the call that returns everything
-  { vector<long long> ov; double t, o1, o2, o3;
-    auto rel = [&](double v, double ref, LD unit) { return uq(((LD)v - ref) / unit, 1e-15L); };
-    const Geodesic& G = S[0].g; const GeodesicExact& E = S[1].e;
-    G.Inverse(lat1, lon1, lat2, lon2, t, t, t, o1); ov.push_back(rel(o1, m12[0], a));
-    G.Inverse(lat1, lon1, lat2, lon2, t, t, t, o1, o2); ov.push_back(rel(o1, M12[0], 1)); ov.push_back(rel(o2, M21[0], 1));
-    G.Inverse(lat1, lon1, lat2, lon2, t, t, t, o1, o2, o3); ov.push_back(rel(o1, m12[0], a)); ov.push_back(rel(o2, M12[0], 1)); ov.push_back(rel(o3, M21[0], 1));
-    E.Inverse(lat1, lon1, lat2, lon2, t, t, t, o1); ov.push_back(rel(o1, m12[1], a));
-    E.Inverse(lat1, lon1, lat2, lon2, t, t, t, o1, o2); ov.push_back(rel(o1, M12[1], 1)); ov.push_back(rel(o2, M21[1], 1));
-    G.GenInverse(lat1, lon1, lat2, lon2, Geodesic::GEODESICSCALE, t, t, t, t, o1, o2, t); ov.push_back(rel(o1, M12[0], 1)); ov.push_back(rel(o2, M21[0], 1));
-    G.GenInverse(lat1, lon1, lat2, lon2, Geodesic::AREA, t, t, t, t, t, t, o1); ov.push_back(rel(o1, S12[0], area));
-    E.GenInverse(lat1, lon1, lat2, lon2, GeodesicExact::AREA, t, t, t, t, t, t, o1); ov.push_back(rel(o1, S12[1], area));
-    E.GenInverse(lat1, lon1, lat2, lon2, GeodesicExact::REDUCEDLENGTH, t, t, t, o1, t, t, t); ov.push_back(rel(o1, m12[1], a));
-    r.li("ovl", ov); }
+  Rec r; r.str("e", "il").i("id", id); ell_fields(r, E);
+  inverse_core(r, g, E, cls, lat1, lon1, lat2, lon2, syms, id % 4 == 0);
   r.emit();
 }
 
 // C03: addition rules on three collinear points, polygon closure, ellipsoid area
-static void add_law(vt::Rng& g, long long id) {
-  int fi = int(g.range(0, NF - 1)); double f = FS[fi], a = g.coin() ? 6378137.0 : 6.4e6; LD scale = a / 6378137.0L;
-  int k = int(g.range(0, 2)); Sol s(k, a, f);
+static void add_law(vt::Rng& g, long long id, bool ext) {
+  Ell E; int k;
+  if (!ext) { int fi = int(g.range(0, NF - 1)); double a = g.coin() ? 6378137.0 : 6.4e6; E = base_ell(fi, a); k = int(g.range(0, 2)); }
+  else { double a = g.coin() ? 6378137.0 : 6.4e6; int kk = int(g.range(1, 6)); E = g.coin() ? ratio_ell(1, 1LL << kk, a) : ratio_ell(1LL << kk, 1, a); k = 1 + int(g.range(0, 1)); }
+  double a = E.a, f = E.f; LD scale = E.scale;
+  Sol s(k, a, f);
   double lat1 = g.uni(-90, 90), lon1 = g.uni(-180, 180), azi1 = g.uni(-180, 180);
   if (g.range(0, 5) == 0) azi1 = 90.0 * double(g.range(-2, 2)); if (g.range(0, 7) == 0) lat1 = 0;
   double s13 = g.uni(-1, 1) * pow(10.0, g.uni(2, 7.5)) * double(scale), fr = g.uni(0, 1); if (g.range(0, 6) == 0) fr = g.coin() ? 0 : 1;
@@ -314,25 +693,26 @@ static void add_law(vt::Rng& g, long long id) {
   a12 = s.GenDirect(lat1, lon1, azi1, false, s12, false, la2, lo2, az2, t, m12, M12, M21, S12);
   a13 = s.GenDirect(lat1, lon1, azi1, false, s13, false, la3, lo3, az3, t, m13, M13, M31, S13);
   a23 = s.GenDirect(la2, lo2, az2, false, s13 - s12, false, la3b, lo3b, az3b, t, m23, M23, M32, S23);
-  LD area = s.Area();
-  Rec r; r.str("e", "al").i("id", id).i("fi", fi).i("kind", k).i("aq", vt::q1(a, 1.0L));
+  LD area = s.Area(), asc = area / 510065621724088.44L; if (E.fi <= 8) asc = scale * scale;
+  Rec r; r.str("e", "al").i("id", id); ell_fields(r, E); r.i("kind", k).i("circ", vt::q1(fabs(a13) / 360, 1.0L));
   r.i("cmin", max(1LL, vt::q1(min(min(cosl(lat1 * PIL / 180), cosl(la2 * PIL / 180)), cosl(la3 * PIL / 180)), 1e-6L)));
+  r.i("mx", vt::q1(ceill(max(max((LD)1, max(fabsl((LD)M12), fabsl((LD)M21))), max(max(fabsl((LD)M13), fabsl((LD)M31)), max(fabsl((LD)M23), fabsl((LD)M32))))), 1.0L));
+  r.i("kq", kq(max(max(kappa(a, f, lat1), kappa(a, f, la2)), kappa(a, f, la3)), scale, asc));
   LD pm13 = (LD)m12 * M23 + (LD)m23 * M21;
   // the M rules divide by m12 / m23: state them multiplied through
   LD rM13 = ((LD)M13 - (LD)M12 * M23) * m12 + (1 - (LD)M12 * M21) * m23;
   LD rM31 = ((LD)M31 - (LD)M32 * M21) * m23 + (1 - (LD)M23 * M32) * m12;
   r.li("add", {nmq(dist(cart(a, f, la3, lo3), cart(a, f, la3b, lo3b)) / scale), uq((LD)a13 - a12 - a23, 1e-13L), nmq(((LD)m13 - pm13) / scale),
-               nmq(rM13 / scale), nmq(rM31 / scale), uq(((LD)S13 - S12 - S23) / (scale * scale), 1e-4L)});
+               nmq(rM13 / scale), nmq(rM31 / scale), uq(((LD)S13 - S12 - S23) / asc, 1e-4L)});
   // polygon closure: S12 of the sides of a triangle sum to its area modulo the ellipsoid area (crossing rule left to PolygonArea)
   { double la[3], lo[3]; for (int i = 0; i < 3; ++i) { la[i] = g.uni(-80, 80); lo[i] = g.uni(-180, 180); }
     LD sum = 0; for (int i = 0; i < 3; ++i) { double ss, z1, z2, mm, MM1, MM2, SS; s.GenInverse(la[i], lo[i], la[(i + 1) % 3], lo[(i + 1) % 3], ss, z1, z2, mm, MM1, MM2, SS); sum += SS; }
     PolygonAreaExact pe(s.e, false); PolygonArea pg(s.g, false);
     double per, ar; if (k == 1) { for (int i = 0; i < 3; ++i) pe.AddPoint(la[i], lo[i]); pe.Compute(false, true, per, ar); } else { for (int i = 0; i < 3; ++i) pg.AddPoint(la[i], lo[i]); pg.Compute(false, true, per, ar); }
     // counter-clockwise positive area = -sum (mod area/2: the crossing rule adds multiples of half the area)
-    r.li("poly", {min(500000000LL, uq(remainderl(sum + (LD)ar, area / 2) / (scale * scale), 1e-4L))}); }
+    r.li("poly", {min(500000000LL, uq(remainderl(sum + (LD)ar, area / 2) / asc, 1e-4L))}); }
   // ellipsoid area: four classes and the closed form 2 pi (a^2 + b^2 atanh(e)/e)
-  { LD b = (LD)a * (1 - (LD)f), e2 = (LD)f * (2 - (LD)f), cf;
-    if (f == 0) cf = 4 * PIL * (LD)a * a; else if (f > 0) { LD e = sqrtl(e2); cf = 2 * PIL * ((LD)a * a + b * b * atanhl(e) / e); } else { LD e = sqrtl(-e2); cf = 2 * PIL * ((LD)a * a + b * b * atanl(e) / e); }
+  { LD cf = area_closed(a, f);
     Geodesic gg(a, f); GeodesicExact ge(a, f); Rhumb rh(a, f); Ellipsoid el(a, f);
     LD relu = 1e-16L * cf; r.li("area", {uq(gg.EllipsoidArea() - cf, relu), uq(ge.EllipsoidArea() - cf, relu), uq(rh.EllipsoidArea() - cf, relu), uq(el.Area() - cf, relu)}); }
   r.emit();
@@ -340,11 +720,18 @@ static void add_law(vt::Rng& g, long long id) {
 
 int main(int argc, char** argv) {
   vt::install_terminate();
-  if (argc >= 2 && string(argv[1]) == "replay") { replay(); return 0; }
-  if (argc >= 6 && string(argv[1]) == "record") {
-    vt::Rng g(strtoull(argv[2], 0, 10)); long long n = atoll(argv[3]); vector<Sym> syms = load_sym(argv[4]); string which = argv[5];
-    for (long long i = 0; i < n; ++i) { if (which == "dl") direct_law(g, i); else if (which == "il") inverse_law(g, i, syms); else add_law(g, i); }
+  if (argc >= 2 && string(argv[1]) == "replay") { if (argc >= 3) load_ovl(argv[2]); replay(); return 0; }
+  if (argc >= 7 && string(argv[1]) == "record") {
+    uint64_t seed = strtoull(argv[2], 0, 10);
+    vt::Rng g(seed); long long n = atoll(argv[3]); vector<Sym> syms = load_sym(argv[4]); string which = argv[5]; load_ovl(argv[6]);
+    // the extended kinds use their own stream
+    vt::Rng gx(seed * 2654435761ULL + 12345);
+    for (long long i = 0; i < n; ++i) {
+      if (which == "dl") direct_law(g, i, seed, false); else if (which == "il") inverse_law(g, i, syms, false); else if (which == "al") add_law(g, i, false);
+      else if (which == "dx") direct_law(gx, i, seed, true); else if (which == "ix") inverse_law(gx, i, syms, true); else if (which == "ax") add_law(gx, i, true);
+      else { fprintf(stderr, "unknown record kind %s\n", which.c_str()); return 2; }
+    }
     return 0;
   }
-  fprintf(stderr, "usage: drv_geod replay < vectors | record seed n symfile dl|il|al\n"); return 2;
+  fprintf(stderr, "usage: drv_geod replay ovlfile < vectors | record seed n symfile dl|il|al|dx|ix|ax ovlfile\n"); return 2;
 }
